@@ -2,8 +2,9 @@
 C02 — oracle safety: > 66 % power, one vote per validator, applied once, in order.
 Model: `Model/Oracle.lean` (mirrors x/skyway/keeper/attestation.go, x/skyway/abci.go, keeper.go at the
 current HEAD). Everything below the marker is proved for EVERY history `run ops` of votes (any validator,
-nonce, competing claim, accepted or rejected), end-of-block tallies with an arbitrary power table each (with
-or without a failing observation event), periodic validator-nonce catch-up and governance nonce overrides.
+nonce, competing claim of any bridge deployment, accepted or rejected), end-of-block tallies with an
+arbitrary power table each (with or without a failing observation event), periodic validator-nonce catch-up,
+governance nonce overrides and chain activations (bridge re-deployments: new compass id, cursor reset to 0).
 
 Ghost state and how it is tied down. `St.log` (with `epoch`, `epochStart`) is never read by the executable
 model. It is tied
@@ -11,16 +12,28 @@ model. It is tied
     entry for it, exactly one, with the same claim), `minted_eq_sum_log` (the observable `minted` is the sum
     over the log) and `cursor_consecutive` (the cursor is `epochStart` + number of entries of this epoch);
   * to the op history by `effect_requires_quorum` (every entry was appended by a tally op of the history
-    whose power table gave the entry's voters more than 66 % of the table's total) and
-    `effect_voters_voted` (every one of those voters has an accepted vote op for that very claim earlier in
-    the history).
-External ASSUMPTIONS (named where used): claim hashes are collision free (a hash identifies the claim
-content; `applicable` and `amount` are functions of the hash); x/staking keeps `LastTotalPower` equal to
-the sum of the `LastValidatorPower` records (`totalOf`); validators stay bonded; pruning (1000 nonces
-behind the cursor) is not reached.
+    whose power table gave the entry's voters more than 66 % of the table's total), `votes_were_cast` (every
+    one of those voters has an accepted vote op for that very claim earlier in the history),
+    `epoch_is_number_of_resets` (`epoch` = number of reset ops, `epochStart` = value of the last one,
+    `compassId` = argument of the last activation) and `log_epoch_tied_to_history` (an entry's `epoch` /
+    `deployment` = number of resets / last activation before the tally that appended it).
+"Between governance resets" is stated for every interval, not only the current one: `every_epoch_consecutive`,
+`every_epoch_no_gap`, `competing_claims_exclusive_every_epoch` (per epoch, the epoch starts being the function
+`epochStarts` of the op history) and `between_resets_consecutive` (on the op history alone, no ghost).
+"For each remote chain and bridge deployment": `chains_independent` (product over chains) and
+`one_deployment_per_epoch` (the deployment changes only with a reset; only its claims are tallied).
+"That identical claim": `honest_votes_counted_only_for_identical_claim` — histories whose votes carry real
+claims (`Props/C11.lean`: field lists of the submittable claim types, hashed through `preimage`); the former
+assumption `HashIdentifiesClaim` is derived there (`hash_identifies_claim_of_preimages`).
+
+External ASSUMPTIONS (named where used): the hash does not collide on the pre-images of the claims that occur
+in the history at hand (`NoCollisionAt`, pointwise); x/staking keeps `LastTotalPower` equal to the sum of the
+`LastValidatorPower` records (`totalOf`); the per-chain stores are disjoint (`applyM`); validators stay
+bonded; pruning (1000 nonces behind the cursor) is not reached.
 -/
 import PalomaModel.Model.Oracle
 import PalomaModel.Gen.Consts
+import PalomaModel.Props.C11
 
 namespace Paloma.Oracle
 open List
@@ -302,12 +315,23 @@ theorem tallyKeys_induct (P : St → Prop) (snap : List Att) (power : Nat → Na
     · exact h1
     · exact ih _ h1
 
+/-- an attestation passes the deployment filter of `GetAttestationMapping` -/
+def Visible (s : St) (a : Att) : Prop := s.compassId = 0 ∨ a.compass = s.compassId
+
+theorem mem_visible {s : St} {a : Att} : a ∈ visible s ↔ a ∈ s.atts ∧ Visible s a := by
+  unfold visible Visible
+  rw [List.mem_filter]
+  simp only [Bool.or_eq_true, beq_iff_eq]
+
 /-- induction principle for a whole tally: `TryAttestation` is only ever called on attestations of the
-mapping read at the start, and only on one whose nonce is the cursor + 1 at that moment -/
+mapping read at the start (stored attestations of the current deployment), and only on one whose nonce is
+the cursor + 1 at that moment -/
 theorem tally_induct (P : St → Prop) (s0 : St) (power : Nat → Nat) (total : Nat) (ef : EventFault)
-    (hstep : ∀ s a, P s → a ∈ s0.atts → a.nonce = s.lastObserved + 1 → P (tryAtt s a power total ef).1)
+    (hstep : ∀ s a, P s → a ∈ s0.atts → Visible s0 a → a.nonce = s.lastObserved + 1 →
+      P (tryAtt s a power total ef).1)
     (h0 : P s0) : P (tally s0 power total ef) :=
-  tallyKeys_induct P s0.atts power total ef hstep _ s0 h0
+  tallyKeys_induct P (visible s0) power total ef
+    (fun s a hp ha hn => hstep s a hp (mem_visible.mp ha).1 (mem_visible.mp ha).2 hn) _ s0 h0
 
 /-- `TryAttestation` either leaves the state untouched or performs `observe` under its four guards -/
 theorem tryAtt_cases (s : St) (a : Att) (power : Nat → Nat) (total : Nat) (ef : EventFault) :
@@ -344,34 +368,37 @@ structure Inv (s : St) : Prop where
   epochLe : ∀ o ∈ s.log, o.epoch ≤ s.epoch
   minted : s.minted = (s.log.map Obs.mint).sum
   obsAtt : ∀ o ∈ s.log, ∃ a ∈ s.atts, a.nonce = o.nonce ∧ a.hash = o.hash ∧ a.observed = true ∧
-    a.applicable = o.applicable ∧ a.amount = o.amount ∧ a.eth = o.eth
+    a.applicable = o.applicable ∧ a.amount = o.amount ∧ a.eth = o.eth ∧ a.compass = o.compass
   attObs : ∀ a ∈ s.atts, a.observed = true → ∃ o ∈ s.log, o.nonce = a.nonce ∧ o.hash = a.hash
   uniq : s.log.Pairwise (fun o o' => ¬ (o.nonce = o'.nonce ∧ o.hash = o'.hash))
   ethLe : ∀ o ∈ s.log, o.eth ≤ s.lastEth
   ethMono : s.log.Pairwise (fun o o' => o.eth ≤ o'.eth)
+  /-- the observations of the current epoch were made under the current deployment id -/
+  deploy : ∀ o ∈ s.log, o.epoch = s.epoch → o.deployment = s.compassId
 
 theorem inv_init : Inv St.init := by
   constructor <;> simp [St.init, St.observations, KeysDistinct]
 
-theorem attFor_cases (s : St) (n h eth : Nat) (ap : Bool) (amt : Nat) :
-    (attFor s n h eth ap amt ∈ s.atts ∧ (attFor s n h eth ap amt).nonce = n ∧ (attFor s n h eth ap amt).hash = h) ∨
+theorem attFor_cases (s : St) (n h eth : Nat) (ap : Bool) (amt cp : Nat) :
+    (attFor s n h eth ap amt cp ∈ s.atts ∧ (attFor s n h eth ap amt cp).nonce = n ∧ (attFor s n h eth ap amt cp).hash = h) ∨
     ((∀ a ∈ s.atts, ¬ (a.nonce = n ∧ a.hash = h)) ∧
-      attFor s n h eth ap amt =
-        { nonce := n, hash := h, eth := eth, votes := [], observed := false, applicable := ap, amount := amt }) := by
+      attFor s n h eth ap amt cp =
+        { nonce := n, hash := h, eth := eth, votes := [], observed := false, applicable := ap, amount := amt,
+          compass := cp }) := by
   unfold attFor
   cases hf : findAtt s.atts n h with
   | none => right; exact ⟨findAtt_none hf, rfl⟩
   | some a => left; exact ⟨findAtt_mem hf, findAtt_key hf⟩
 
 /-- what an accepted vote stores: the attestation of that key with the voter added, everything else as it was -/
-def voted (s : St) (v n h eth : Nat) (ap : Bool) (amt : Nat) : Att :=
-  { attFor s n h eth ap amt with votes := addVote (attFor s n h eth ap amt).votes v }
+def voted (s : St) (v n h eth : Nat) (ap : Bool) (amt cp : Nat) : Att :=
+  { attFor s n h eth ap amt cp with votes := addVote (attFor s n h eth ap amt cp).votes v }
 
-theorem vote_cases (s : St) (v n h eth : Nat) (ap : Bool) (amt : Nat) :
-    ((vote s v n h eth ap amt).2 = .rejected ∧ (vote s v n h eth ap amt).1 = s) ∨
-    ((vote s v n h eth ap amt).2 = .ok ∧ n = lastNonceOf s v + 1 ∧ (attFor s n h eth ap amt).eth = eth ∧
-      (vote s v n h eth ap amt).1 =
-        { s with atts := putAtt s.atts (voted s v n h eth ap amt), valNonce := setNonce s.valNonce v n }) := by
+theorem vote_cases (s : St) (v n h eth : Nat) (ap : Bool) (amt cp : Nat) :
+    ((vote s v n h eth ap amt cp).2 = .rejected ∧ (vote s v n h eth ap amt cp).1 = s) ∨
+    ((vote s v n h eth ap amt cp).2 = .ok ∧ n = lastNonceOf s v + 1 ∧ (attFor s n h eth ap amt cp).eth = eth ∧
+      (vote s v n h eth ap amt cp).1 =
+        { s with atts := putAtt s.atts (voted s v n h eth ap amt cp), valNonce := setNonce s.valNonce v n }) := by
   unfold vote
   split
   · left; exact ⟨rfl, rfl⟩
@@ -382,28 +409,28 @@ theorem vote_cases (s : St) (v n h eth : Nat) (ap : Bool) (amt : Nat) :
       right
       exact ⟨rfl, by simpa using h1, by simpa using h2, rfl⟩
 
-theorem vote_inv (s : St) (v n h eth : Nat) (ap : Bool) (amt : Nat) (hi : Inv s) :
-    Inv (vote s v n h eth ap amt).1 := by
-  rcases vote_cases s v n h eth ap amt with ⟨_, he⟩ | ⟨_, _, _, he⟩
+theorem vote_inv (s : St) (v n h eth : Nat) (ap : Bool) (amt cp : Nat) (hi : Inv s) :
+    Inv (vote s v n h eth ap amt cp).1 := by
+  rcases vote_cases s v n h eth ap amt cp with ⟨_, he⟩ | ⟨_, _, _, he⟩
   · rw [he]; exact hi
   · rw [he]
-    have hx : ∀ a ∈ s.atts, sameKey a (voted s v n h eth ap amt) → attFor s n h eth ap amt = a := by
+    have hx : ∀ a ∈ s.atts, sameKey a (voted s v n h eth ap amt cp) → attFor s n h eth ap amt cp = a := by
       intro a ha hk
-      rcases attFor_cases s n h eth ap amt with ⟨hm, hn, hh⟩ | ⟨hno, _⟩
+      rcases attFor_cases s n h eth ap amt cp with ⟨hm, hn, hh⟩ | ⟨hno, _⟩
       · apply keys_unique hi.keys hm ha
         unfold sameKey voted at *
         simp only at hk
         omega
       · exfalso
         apply hno a ha
-        rcases attFor_cases s n h eth ap amt with ⟨_, hn, hh⟩ | ⟨_, hq⟩
+        rcases attFor_cases s n h eth ap amt cp with ⟨_, hn, hh⟩ | ⟨_, hq⟩
         · unfold sameKey voted at hk; simp only at hk; omega
         · unfold sameKey voted at hk; simp only [hq] at hk; exact hk
     constructor
     · intro a ha
       rcases mem_putAtt ha with rfl | ⟨ha, _⟩
       · apply addVote_nodup
-        rcases attFor_cases s n h eth ap amt with ⟨hm, _, _⟩ | ⟨_, hq⟩
+        rcases attFor_cases s n h eth ap amt cp with ⟨hm, _, _⟩ | ⟨_, hq⟩
         · exact hi.nodup _ hm
         · rw [hq]; simp
       · exact hi.nodup a ha
@@ -414,23 +441,24 @@ theorem vote_inv (s : St) (v n h eth : Nat) (ap : Bool) (amt : Nat) (hi : Inv s)
     · exact hi.epochLe
     · exact hi.minted
     · intro o ho
-      obtain ⟨a, ha, h1, h2, h3, h4, h5, h6⟩ := hi.obsAtt o ho
-      by_cases hk : sameKey a (voted s v n h eth ap amt)
-      · refine ⟨voted s v n h eth ap amt, mem_putAtt_self _ _, ?_⟩
+      obtain ⟨a, ha, h1, h2, h3, h4, h5, h6, h7⟩ := hi.obsAtt o ho
+      by_cases hk : sameKey a (voted s v n h eth ap amt cp)
+      · refine ⟨voted s v n h eth ap amt cp, mem_putAtt_self _ _, ?_⟩
         have := hx a ha hk
         unfold voted
         simp only [this]
-        exact ⟨h1, h2, h3, h4, h5, h6⟩
-      · exact ⟨a, mem_putAtt_of_ne ha hk, h1, h2, h3, h4, h5, h6⟩
+        exact ⟨h1, h2, h3, h4, h5, h6, h7⟩
+      · exact ⟨a, mem_putAtt_of_ne ha hk, h1, h2, h3, h4, h5, h6, h7⟩
     · intro a ha hobs
       rcases mem_putAtt ha with rfl | ⟨ha, _⟩
-      · rcases attFor_cases s n h eth ap amt with ⟨hm, _, _⟩ | ⟨_, hq⟩
-        · exact hi.attObs (attFor s n h eth ap amt) hm hobs
+      · rcases attFor_cases s n h eth ap amt cp with ⟨hm, _, _⟩ | ⟨_, hq⟩
+        · exact hi.attObs (attFor s n h eth ap amt cp) hm hobs
         · unfold voted at hobs; simp [hq] at hobs
       · exact hi.attObs a ha hobs
     · exact hi.uniq
     · exact hi.ethLe
     · exact hi.ethMono
+    · exact hi.deploy
 
 theorem observations_observe (s : St) (a : Att) :
     (observe s a).observations = s.observations ++ [mkObs s a] := by
@@ -477,8 +505,8 @@ theorem observe_inv (s : St) (a : Att) (hi : Inv s) (ha : a ∈ s.atts) (hobs : 
   · intro o ho
     simp only [observe, List.mem_append, List.mem_singleton] at ho
     rcases ho with ho | rfl
-    · obtain ⟨a', ha', h1, h2, h3, h4, h5, h6⟩ := hi.obsAtt o ho
-      refine ⟨a', mem_putAtt_of_ne ha' ?_, h1, h2, h3, h4, h5, h6⟩
+    · obtain ⟨a', ha', h1, h2, h3, h4, h5, h6, h7⟩ := hi.obsAtt o ho
+      refine ⟨a', mem_putAtt_of_ne ha' ?_, h1, h2, h3, h4, h5, h6, h7⟩
       intro hk
       exact hfresh o ho ⟨by unfold sameKey at hk; simp only at hk; omega, by unfold sameKey at hk; simp only at hk; omega⟩
     · exact ⟨{ a with observed := true }, mem_putAtt_self _ _, by simp [mkObs]⟩
@@ -508,6 +536,11 @@ theorem observe_inv (s : St) (a : Att) (hi : Inv s) (ha : a ∈ s.atts) (hobs : 
     subst ho'
     have := hi.ethLe o ho
     simp only [mkObs]; omega
+  · intro o ho he
+    simp only [observe, List.mem_append, List.mem_singleton] at ho he ⊢
+    rcases ho with ho | rfl
+    · exact hi.deploy o ho he
+    · simp [mkObs]
 
 /-- every attestation of the mapping read at the start of a tally is still stored unchanged, unless its
 nonce has been passed by the cursor in the meantime -/
@@ -526,13 +559,13 @@ theorem observe_tracks (s0 s : St) (a : Att) (hn : a.nonce = s.lastObserved + 1)
 `TryAttestation` is known to be the one currently stored -/
 theorem tally_induct_inv (P : St → Prop) (s0 : St) (power : Nat → Nat) (total : Nat) (ef : EventFault)
     (hi0 : Inv s0)
-    (hstep : ∀ s a, Inv s → P s → a ∈ s.atts → a ∈ s0.atts → a.observed = false →
+    (hstep : ∀ s a, Inv s → P s → a ∈ s.atts → a ∈ s0.atts → Visible s0 a → a.observed = false →
       reaches power (requiredPower total) a.votes 0 = true → a.nonce = s.lastObserved + 1 → s.lastEth ≤ a.eth →
       P (observe s a))
     (h0 : P s0) : Inv (tally s0 power total ef) ∧ P (tally s0 power total ef) := by
   have := tally_induct (fun s => Inv s ∧ Tracks s0 s ∧ P s) s0 power total ef ?_ ⟨hi0, fun x hx => Or.inl hx, h0⟩
   · exact ⟨this.1, this.2.2⟩
-  · intro s a ⟨hi, ht, hp⟩ ha0 hn
+  · intro s a ⟨hi, ht, hp⟩ ha0 hvis hn
     rcases tryAtt_cases s a power total ef with he | ⟨h1, h2, h3, h4, he⟩
     · rw [he]; exact ⟨hi, ht, hp⟩
     · rw [he]
@@ -540,11 +573,11 @@ theorem tally_induct_inv (P : St → Prop) (s0 : St) (power : Nat → Nat) (tota
         rcases ht a ha0 with h | h
         · exact h
         · omega
-      exact ⟨observe_inv s a hi ha h1 h3 h4, observe_tracks s0 s a h3 ht, hstep s a hi hp ha ha0 h1 h2 h3 h4⟩
+      exact ⟨observe_inv s a hi ha h1 h3 h4, observe_tracks s0 s a h3 ht, hstep s a hi hp ha ha0 hvis h1 h2 h3 h4⟩
 
 theorem tally_inv (s : St) (power : Nat → Nat) (total : Nat) (ef : EventFault) (hi : Inv s) :
     Inv (tally s power total ef) :=
-  (tally_induct_inv (fun _ => True) s power total ef hi (fun _ _ _ _ _ _ _ _ _ _ => trivial) trivial).1
+  (tally_induct_inv (fun _ => True) s power total ef hi (fun _ _ _ _ _ _ _ _ _ _ _ => trivial) trivial).1
 
 theorem catchUp_inv (s : St) (hi : Inv s) : Inv (catchUp s) := by
   constructor
@@ -560,6 +593,7 @@ theorem catchUp_inv (s : St) (hi : Inv s) : Inv (catchUp s) := by
   · exact hi.uniq
   · exact hi.ethLe
   · exact hi.ethMono
+  · exact hi.deploy
 
 theorem observations_override (s : St) (n : Nat) (hi : Inv s) : (override s n).observations = [] := by
   simp only [St.observations, override]
@@ -585,23 +619,61 @@ theorem override_inv (s : St) (n : Nat) (hi : Inv s) : Inv (override s n) := by
   · exact hi.uniq
   · exact hi.ethLe
   · exact hi.ethMono
+  · intro o ho he
+    have := hi.epochLe o ho
+    simp only [override] at he
+    omega
+
+theorem observations_activate (s : St) (c : Nat) (hi : Inv s) : (activate s c).observations = [] := by
+  simp only [St.observations, activate, override]
+  rw [List.filter_eq_nil_iff]
+  intro o ho
+  have := hi.epochLe o ho
+  simp only [beq_iff_eq]
+  omega
+
+/-- a chain activation: new deployment id, cursor and validator nonces reset to 0, a new epoch -/
+theorem activate_inv (s : St) (c : Nat) (hi : Inv s) : Inv (activate s c) := by
+  constructor
+  · exact hi.nodup
+  · exact hi.keys
+  · rw [observations_activate s c hi]; simp [activate, override]
+  · rw [observations_activate s c hi]; simp
+  · exact hi.before
+  · intro o ho
+    have := hi.epochLe o ho
+    simp only [activate, override]; omega
+  · exact hi.minted
+  · exact hi.obsAtt
+  · exact hi.attObs
+  · exact hi.uniq
+  · exact hi.ethLe
+  · exact hi.ethMono
+  · intro o ho he
+    have := hi.epochLe o ho
+    simp only [activate, override] at he
+    omega
 
 /-! ### histories -/
 
 /-- everything that can happen to the oracle of one chain -/
 inductive Op where
-  | vote (v n h eth : Nat) (applicable : Bool) (amount : Nat)
+  | vote (v n h eth : Nat) (applicable : Bool) (amount : Nat) (compass : Nat)
   /-- end of block: `power` is the whole `LastValidatorPower` table at that moment (the total is its sum);
   `failing` lists the attestations (nonce, hash) whose observation event cannot be emitted in this block -/
   | tally (power : List (Nat × Nat)) (failing : List (Nat × Nat))
   | catchUp
+  /-- governance `NonceOverrideProposal` -/
   | override (n : Nat)
+  /-- chain activation / bridge re-deployment with compass id `c` (`EVMActivatedChain` event) -/
+  | activate (c : Nat)
 
 def apply (s : St) : Op → St
-  | .vote v n h eth ap amt => (vote s v n h eth ap amt).1
+  | .vote v n h eth ap amt cp => (vote s v n h eth ap amt cp).1
   | .tally p f => tally s (powerOf p) (totalOf p) (faultOf f)
   | .catchUp => catchUp s
   | .override n => override s n
+  | .activate c => activate s c
 
 def run (ops : List Op) : St := ops.foldl apply St.init
 
@@ -610,10 +682,11 @@ theorem run_snoc (l : List Op) (op : Op) : run (l ++ [op]) = apply (run l) op :=
 
 theorem apply_inv (s : St) (op : Op) (hi : Inv s) : Inv (apply s op) := by
   cases op with
-  | vote v n h eth ap amt => exact vote_inv s v n h eth ap amt hi
+  | vote v n h eth ap amt cp => exact vote_inv s v n h eth ap amt cp hi
   | tally p f => exact tally_inv s _ _ _ hi
   | catchUp => exact catchUp_inv s hi
   | override n => exact override_inv s n hi
+  | activate c => exact activate_inv s c hi
 
 theorem run_inv (ops : List Op) : Inv (run ops) := by
   induction ops using rev_induction with
@@ -627,133 +700,144 @@ def QuorumObs (s : St) (power : Nat → Nat) (total : Nat) (o : Obs) : Prop :=
     a.applicable = o.applicable ∧ a.amount = o.amount ∧ a.votes = o.voters ∧ a.votes.Nodup ∧
     100 * (a.votes.map power).sum > 66 * total
 
+/-- `o` records an observation made out of `s`' epoch and deployment: the claim passed the deployment filter
+of `GetAttestationMapping` as it stood in `s` -/
+def DeployObs (s : St) (o : Obs) : Prop :=
+  o.epoch = s.epoch ∧ o.deployment = s.compassId ∧ (s.compassId = 0 ∨ o.compass = s.compassId)
+
 /-- what a whole tally does to the ghost log and to the cursor -/
 theorem tally_log (s0 : St) (power : Nat → Nat) (total : Nat) (ef : EventFault) (hi : Inv s0) :
     ∃ new, (tally s0 power total ef).log = s0.log ++ new ∧
       (tally s0 power total ef).epoch = s0.epoch ∧ (tally s0 power total ef).epochStart = s0.epochStart ∧
       (tally s0 power total ef).valNonce = s0.valNonce ∧
-      (∀ o ∈ new, o.epoch = s0.epoch ∧ QuorumObs s0 power total o) := by
+      (tally s0 power total ef).compassId = s0.compassId ∧
+      (∀ o ∈ new, DeployObs s0 o ∧ QuorumObs s0 power total o) := by
   refine (tally_induct_inv (fun s => ∃ new, s.log = s0.log ++ new ∧ s.epoch = s0.epoch ∧
-      s.epochStart = s0.epochStart ∧ s.valNonce = s0.valNonce ∧
-      (∀ o ∈ new, o.epoch = s0.epoch ∧ QuorumObs s0 power total o)) s0 power total ef hi ?_
-      ⟨[], by simp, rfl, rfl, rfl, by simp⟩).2
-  intro s a _ ⟨new, hl, he, hes, hv, hq⟩ _ ha0 hobs hr _ _
+      s.epochStart = s0.epochStart ∧ s.valNonce = s0.valNonce ∧ s.compassId = s0.compassId ∧
+      (∀ o ∈ new, DeployObs s0 o ∧ QuorumObs s0 power total o)) s0 power total ef hi ?_
+      ⟨[], by simp, rfl, rfl, rfl, rfl, by simp⟩).2
+  intro s a _ ⟨new, hl, he, hes, hv, hc, hq⟩ _ ha0 hvis hobs hr _ _
   refine ⟨new ++ [mkObs s a], by simp [observe, hl], by simp [observe, he], by simp [observe, hes],
-    by simp [observe, hv], ?_⟩
+    by simp [observe, hv], by simp [observe, hc], ?_⟩
   intro o ho
   rcases List.mem_append.mp ho with ho | ho
   · exact hq o ho
   · simp only [List.mem_singleton] at ho
     subst ho
-    exact ⟨by simp [mkObs, he], a, ha0, hobs, rfl, rfl, rfl, rfl, rfl, rfl, hi.nodup a ha0,
-      reaches_quorum power total a.votes hr⟩
+    exact ⟨⟨by simp [mkObs, he], by simp [mkObs, hc], hvis⟩, a, ha0, hobs, rfl, rfl, rfl, rfl, rfl, rfl,
+      hi.nodup a ha0, reaches_quorum power total a.votes hr⟩
 
 /-- everything but the observed flag -/
 def AttSame (a a' : Att) : Prop :=
   a'.nonce = a.nonce ∧ a'.hash = a.hash ∧ a'.eth = a.eth ∧ a'.applicable = a.applicable ∧
-    a'.amount = a.amount ∧ a'.votes = a.votes
+    a'.amount = a.amount ∧ a'.votes = a.votes ∧ a'.compass = a.compass
 
 /-- a tally changes stored attestations in their observed flag only -/
 theorem tally_atts (s0 : St) (power : Nat → Nat) (total : Nat) (ef : EventFault) (hi : Inv s0) :
     ∀ a' ∈ (tally s0 power total ef).atts, ∃ a ∈ s0.atts, AttSame a a' := by
   refine (tally_induct_inv (fun s => ∀ a' ∈ s.atts, ∃ a ∈ s0.atts, AttSame a a') s0 power total ef hi ?_
-      (fun a ha => ⟨a, ha, rfl, rfl, rfl, rfl, rfl, rfl⟩)).2
-  intro s a _ hp _ ha0 _ _ _ _ a' ha'
+      (fun a ha => ⟨a, ha, rfl, rfl, rfl, rfl, rfl, rfl, rfl⟩)).2
+  intro s a _ hp _ ha0 _ _ _ _ _ a' ha'
   simp only [observe] at ha'
   rcases mem_putAtt ha' with rfl | ⟨ha', _⟩
-  · exact ⟨a, ha0, rfl, rfl, rfl, rfl, rfl, rfl⟩
+  · exact ⟨a, ha0, rfl, rfl, rfl, rfl, rfl, rfl, rfl⟩
   · exact hp a' ha'
 
 /-- where the entries of the ghost log come from -/
 theorem apply_log (s : St) (op : Op) (hi : Inv s) :
     ∃ new, (apply s op).log = s.log ++ new ∧
-      ∀ o ∈ new, ∃ p f, op = .tally p f ∧ QuorumObs s (powerOf p) (totalOf p) o := by
+      ∀ o ∈ new, ∃ p f, op = .tally p f ∧ DeployObs s o ∧ QuorumObs s (powerOf p) (totalOf p) o := by
   cases op with
-  | vote v n h eth ap amt =>
+  | vote v n h eth ap amt cp =>
     refine ⟨[], ?_, by simp⟩
-    rcases vote_cases s v n h eth ap amt with ⟨_, he⟩ | ⟨_, _, _, he⟩ <;> simp [apply, he]
+    rcases vote_cases s v n h eth ap amt cp with ⟨_, he⟩ | ⟨_, _, _, he⟩ <;> simp [apply, he]
   | tally p f =>
-    obtain ⟨new, hl, _, _, _, hq⟩ := tally_log s (powerOf p) (totalOf p) (faultOf f) hi
-    exact ⟨new, hl, fun o ho => ⟨p, f, rfl, (hq o ho).2⟩⟩
+    obtain ⟨new, hl, _, _, _, _, hq⟩ := tally_log s (powerOf p) (totalOf p) (faultOf f) hi
+    exact ⟨new, hl, fun o ho => ⟨p, f, rfl, hq o ho⟩⟩
   | catchUp => exact ⟨[], by simp [apply, catchUp], by simp⟩
   | override n => exact ⟨[], by simp [apply, override], by simp⟩
+  | activate c => exact ⟨[], by simp [apply, activate, override], by simp⟩
 
 /-- where the votes of a stored attestation come from -/
 theorem apply_votes (s : St) (op : Op) (hi : Inv s) :
     ∀ a' ∈ (apply s op).atts, ∀ w ∈ a'.votes,
       (∃ a ∈ s.atts, a.nonce = a'.nonce ∧ a.hash = a'.hash ∧ a.eth = a'.eth ∧ w ∈ a.votes) ∨
-      (∃ ap amt, op = .vote w a'.nonce a'.hash a'.eth ap amt ∧ (vote s w a'.nonce a'.hash a'.eth ap amt).2 = .ok) := by
+      (∃ ap amt cp, op = .vote w a'.nonce a'.hash a'.eth ap amt cp ∧ (vote s w a'.nonce a'.hash a'.eth ap amt cp).2 = .ok) := by
   intro a' ha' w hw
   cases op with
-  | vote v n h eth ap amt =>
+  | vote v n h eth ap amt cp =>
     simp only [apply] at ha'
-    rcases vote_cases s v n h eth ap amt with ⟨_, he⟩ | ⟨hok, _, heth, he⟩
+    rcases vote_cases s v n h eth ap amt cp with ⟨_, he⟩ | ⟨hok, _, heth, he⟩
     · rw [he] at ha'; exact Or.inl ⟨a', ha', rfl, rfl, rfl, hw⟩
     · rw [he] at ha'
       simp only at ha'
       rcases mem_putAtt ha' with rfl | ⟨ha', _⟩
-      · rcases attFor_cases s n h eth ap amt with ⟨hm, hn, hh⟩ | ⟨_, hq⟩
-        · rcases mem_addVote (show w ∈ addVote (attFor s n h eth ap amt).votes v from hw) with hw | rfl
-          · exact Or.inl ⟨attFor s n h eth ap amt, hm, rfl, rfl, rfl, hw⟩
+      · rcases attFor_cases s n h eth ap amt cp with ⟨hm, hn, hh⟩ | ⟨_, hq⟩
+        · rcases mem_addVote (show w ∈ addVote (attFor s n h eth ap amt cp).votes v from hw) with hw | rfl
+          · exact Or.inl ⟨attFor s n h eth ap amt cp, hm, rfl, rfl, rfl, hw⟩
           · right
-            refine ⟨ap, amt, ?_, ?_⟩
-            · show Op.vote w n h eth ap amt = Op.vote w (attFor s n h eth ap amt).nonce (attFor s n h eth ap amt).hash
-                (attFor s n h eth ap amt).eth ap amt
+            refine ⟨ap, amt, cp, ?_, ?_⟩
+            · show Op.vote w n h eth ap amt cp = Op.vote w (attFor s n h eth ap amt cp).nonce (attFor s n h eth ap amt cp).hash
+                (attFor s n h eth ap amt cp).eth ap amt cp
               rw [hn, hh, heth]
-            · show (vote s w (attFor s n h eth ap amt).nonce (attFor s n h eth ap amt).hash
-                (attFor s n h eth ap amt).eth ap amt).2 = .ok
+            · show (vote s w (attFor s n h eth ap amt cp).nonce (attFor s n h eth ap amt cp).hash
+                (attFor s n h eth ap amt cp).eth ap amt cp).2 = .ok
               rw [hn, hh, heth]; exact hok
-        · have hw' : w ∈ addVote (attFor s n h eth ap amt).votes v := hw
+        · have hw' : w ∈ addVote (attFor s n h eth ap amt cp).votes v := hw
           rw [hq] at hw'
           rcases mem_addVote hw' with hw' | rfl
           · simp at hw'
           · right
-            refine ⟨ap, amt, ?_, ?_⟩
-            · show Op.vote w n h eth ap amt = Op.vote w (attFor s n h eth ap amt).nonce (attFor s n h eth ap amt).hash
-                (attFor s n h eth ap amt).eth ap amt
+            refine ⟨ap, amt, cp, ?_, ?_⟩
+            · show Op.vote w n h eth ap amt cp = Op.vote w (attFor s n h eth ap amt cp).nonce (attFor s n h eth ap amt cp).hash
+                (attFor s n h eth ap amt cp).eth ap amt cp
               rw [hq]
-            · show (vote s w (attFor s n h eth ap amt).nonce (attFor s n h eth ap amt).hash
-                (attFor s n h eth ap amt).eth ap amt).2 = .ok
+            · show (vote s w (attFor s n h eth ap amt cp).nonce (attFor s n h eth ap amt cp).hash
+                (attFor s n h eth ap amt cp).eth ap amt cp).2 = .ok
               rw [hq]; exact hok
       · exact Or.inl ⟨a', ha', rfl, rfl, rfl, hw⟩
   | tally p f =>
-    obtain ⟨a, ha, h1, h2, h3, _, _, h6⟩ := tally_atts s (powerOf p) (totalOf p) (faultOf f) hi a' ha'
+    obtain ⟨a, ha, h1, h2, h3, _, _, h6, _⟩ := tally_atts s (powerOf p) (totalOf p) (faultOf f) hi a' ha'
     exact Or.inl ⟨a, ha, h1.symm, h2.symm, h3.symm, h6 ▸ hw⟩
   | catchUp => exact Or.inl ⟨a', ha', rfl, rfl, rfl, hw⟩
   | override n => exact Or.inl ⟨a', ha', rfl, rfl, rfl, hw⟩
+  | activate c => exact Or.inl ⟨a', ha', rfl, rfl, rfl, hw⟩
 
 /-- where the claim content of a stored attestation comes from: the vote that created it -/
 theorem apply_origin (s : St) (op : Op) (hi : Inv s) :
     ∀ a' ∈ (apply s op).atts,
       (∃ a ∈ s.atts, a.nonce = a'.nonce ∧ a.hash = a'.hash ∧ a.eth = a'.eth ∧ a.applicable = a'.applicable ∧
-        a.amount = a'.amount) ∨
-      (∃ v, op = .vote v a'.nonce a'.hash a'.eth a'.applicable a'.amount ∧
-        (vote s v a'.nonce a'.hash a'.eth a'.applicable a'.amount).2 = .ok) := by
+        a.amount = a'.amount ∧ a.compass = a'.compass) ∨
+      (∃ v, op = .vote v a'.nonce a'.hash a'.eth a'.applicable a'.amount a'.compass ∧
+        (vote s v a'.nonce a'.hash a'.eth a'.applicable a'.amount a'.compass).2 = .ok) := by
   intro a' ha'
   cases op with
-  | vote v n h eth ap amt =>
+  | vote v n h eth ap amt cp =>
     simp only [apply] at ha'
-    rcases vote_cases s v n h eth ap amt with ⟨_, he⟩ | ⟨hok, _, heth, he⟩
-    · rw [he] at ha'; exact Or.inl ⟨a', ha', rfl, rfl, rfl, rfl, rfl⟩
+    rcases vote_cases s v n h eth ap amt cp with ⟨_, he⟩ | ⟨hok, _, heth, he⟩
+    · rw [he] at ha'; exact Or.inl ⟨a', ha', rfl, rfl, rfl, rfl, rfl, rfl⟩
     · rw [he] at ha'
       simp only at ha'
       rcases mem_putAtt ha' with rfl | ⟨ha', _⟩
-      · rcases attFor_cases s n h eth ap amt with ⟨hm, _, _⟩ | ⟨_, hq⟩
-        · exact Or.inl ⟨attFor s n h eth ap amt, hm, rfl, rfl, rfl, rfl, rfl⟩
+      · rcases attFor_cases s n h eth ap amt cp with ⟨hm, _, _⟩ | ⟨_, hq⟩
+        · exact Or.inl ⟨attFor s n h eth ap amt cp, hm, rfl, rfl, rfl, rfl, rfl, rfl⟩
         · right
           refine ⟨v, ?_, ?_⟩
-          · show Op.vote v n h eth ap amt = Op.vote v (attFor s n h eth ap amt).nonce (attFor s n h eth ap amt).hash
-              (attFor s n h eth ap amt).eth (attFor s n h eth ap amt).applicable (attFor s n h eth ap amt).amount
+          · show Op.vote v n h eth ap amt cp = Op.vote v (attFor s n h eth ap amt cp).nonce (attFor s n h eth ap amt cp).hash
+              (attFor s n h eth ap amt cp).eth (attFor s n h eth ap amt cp).applicable (attFor s n h eth ap amt cp).amount
+              (attFor s n h eth ap amt cp).compass
             rw [hq]
-          · show (vote s v (attFor s n h eth ap amt).nonce (attFor s n h eth ap amt).hash
-              (attFor s n h eth ap amt).eth (attFor s n h eth ap amt).applicable (attFor s n h eth ap amt).amount).2 = .ok
+          · show (vote s v (attFor s n h eth ap amt cp).nonce (attFor s n h eth ap amt cp).hash
+              (attFor s n h eth ap amt cp).eth (attFor s n h eth ap amt cp).applicable (attFor s n h eth ap amt cp).amount
+              (attFor s n h eth ap amt cp).compass).2 = .ok
             rw [hq]; exact hok
-      · exact Or.inl ⟨a', ha', rfl, rfl, rfl, rfl, rfl⟩
+      · exact Or.inl ⟨a', ha', rfl, rfl, rfl, rfl, rfl, rfl⟩
   | tally p f =>
-    obtain ⟨a, ha, h1, h2, h3, h4, h5, _⟩ := tally_atts s (powerOf p) (totalOf p) (faultOf f) hi a' ha'
-    exact Or.inl ⟨a, ha, h1.symm, h2.symm, h3.symm, h4.symm, h5.symm⟩
-  | catchUp => exact Or.inl ⟨a', ha', rfl, rfl, rfl, rfl, rfl⟩
-  | override n => exact Or.inl ⟨a', ha', rfl, rfl, rfl, rfl, rfl⟩
+    obtain ⟨a, ha, h1, h2, h3, h4, h5, _, h7⟩ := tally_atts s (powerOf p) (totalOf p) (faultOf f) hi a' ha'
+    exact Or.inl ⟨a, ha, h1.symm, h2.symm, h3.symm, h4.symm, h5.symm, h7.symm⟩
+  | catchUp => exact Or.inl ⟨a', ha', rfl, rfl, rfl, rfl, rfl, rfl⟩
+  | override n => exact Or.inl ⟨a', ha', rfl, rfl, rfl, rfl, rfl, rfl⟩
+  | activate c => exact Or.inl ⟨a', ha', rfl, rfl, rfl, rfl, rfl, rfl⟩
 
 theorem filter_length_le_one {α : Type} (p : α → Bool) (l : List α)
     (h : l.Pairwise (fun x y => ¬ (p x = true ∧ p y = true))) : (l.filter p).length ≤ 1 := by
@@ -768,32 +852,300 @@ theorem filter_length_le_one {α : Type} (p : α → Bool) (l : List α)
 
 /-- the history contains an accepted vote of `v` for claim `(n, h)` reported at remote height `eth` -/
 def VotedIn (ops : List Op) (v n h eth : Nat) : Prop :=
-  ∃ pre ap amt post, ops = pre ++ Op.vote v n h eth ap amt :: post ∧ (vote (run pre) v n h eth ap amt).2 = .ok
+  ∃ pre ap amt cp post, ops = pre ++ Op.vote v n h eth ap amt cp :: post ∧ (vote (run pre) v n h eth ap amt cp).2 = .ok
 
 theorem VotedIn.snoc {l : List Op} {v n h eth : Nat} (hv : VotedIn l v n h eth) (op : Op) :
     VotedIn (l ++ [op]) v n h eth := by
-  obtain ⟨pre, ap, amt, post, he, hok⟩ := hv
-  exact ⟨pre, ap, amt, post ++ [op], by simp [he], hok⟩
+  obtain ⟨pre, ap, amt, cp, post, he, hok⟩ := hv
+  exact ⟨pre, ap, amt, cp, post ++ [op], by simp [he], hok⟩
 
 theorem VotedIn.append {l : List Op} {v n h eth : Nat} (hv : VotedIn l v n h eth) (more : List Op) :
     VotedIn (l ++ more) v n h eth := by
-  obtain ⟨pre, ap, amt, post, he, hok⟩ := hv
-  exact ⟨pre, ap, amt, post ++ more, by simp [he], hok⟩
+  obtain ⟨pre, ap, amt, cp, post, he, hok⟩ := hv
+  exact ⟨pre, ap, amt, cp, post ++ more, by simp [he], hok⟩
 
 /-- the history contains an accepted vote that submitted exactly this claim content -/
-def SubmittedIn (ops : List Op) (n h eth : Nat) (ap : Bool) (amt : Nat) : Prop :=
-  ∃ pre v post, ops = pre ++ Op.vote v n h eth ap amt :: post ∧ (vote (run pre) v n h eth ap amt).2 = .ok
+def SubmittedIn (ops : List Op) (n h eth : Nat) (ap : Bool) (amt cp : Nat) : Prop :=
+  ∃ pre v post, ops = pre ++ Op.vote v n h eth ap amt cp :: post ∧ (vote (run pre) v n h eth ap amt cp).2 = .ok
 
-theorem SubmittedIn.snoc {l : List Op} {n h eth : Nat} {ap : Bool} {amt : Nat} (hv : SubmittedIn l n h eth ap amt)
-    (op : Op) : SubmittedIn (l ++ [op]) n h eth ap amt := by
+theorem SubmittedIn.snoc {l : List Op} {n h eth : Nat} {ap : Bool} {amt cp : Nat} (hv : SubmittedIn l n h eth ap amt cp)
+    (op : Op) : SubmittedIn (l ++ [op]) n h eth ap amt cp := by
   obtain ⟨pre, v, post, he, hok⟩ := hv
   exact ⟨pre, v, post ++ [op], by simp [he], hok⟩
 
-/-- ASSUMPTION (tmhash collision freeness; the pre-image is C11's subject): within a history a claim hash
-determines the claim content the model carries next to it (`applicable`, `amount`). The remote height is
-NOT covered by the hash; `Attest` compares it explicitly. -/
+/-- the history contains this very vote op, and `Attest` accepted it -/
+def AcceptedIn (ops : List Op) (v n h eth : Nat) (ap : Bool) (amt cp : Nat) : Prop :=
+  ∃ pre post, ops = pre ++ Op.vote v n h eth ap amt cp :: post ∧ (vote (run pre) v n h eth ap amt cp).2 = .ok
+
+/-- Within a history a claim hash determines the claim content the model carries next to it (`applicable`,
+`amount`, `compass`) — for the ACCEPTED votes only (rejected votes are not constrained). This is a
+hypothesis of `voters_voted_identical_claim`; it is not assumed for histories made of real claims:
+`hash_identifies_claim_of_preimages` (below) DERIVES it from C11's pre-image theorems and pointwise
+collision freeness of the hash on the pre-images that occur in the history. (The remote height is part of
+the pre-image too; in addition `Attest` compares it explicitly, which `votes_were_cast` uses.) -/
 def HashIdentifiesClaim (ops : List Op) : Prop :=
-  ∀ v n h e ap am v' e' ap' am', Op.vote v n h e ap am ∈ ops → Op.vote v' n h e' ap' am' ∈ ops → ap = ap' ∧ am = am'
+  ∀ v n h e ap am cp v' e' ap' am' cp', AcceptedIn ops v n h e ap am cp → AcceptedIn ops v' n h e' ap' am' cp' →
+    ap = ap' ∧ am = am' ∧ cp = cp'
+
+/-! ### epochs: the resets of a history -/
+
+/-- the cursor value an op resets the oracle to, if it is a reset: a governance override installs its
+argument, a chain activation installs 0 -/
+def resetOf : Op → Option Nat
+  | .override n => some n
+  | .activate _ => some 0
+  | _ => none
+
+/-- the reset values of a history, oldest first -/
+def resetsOf (ops : List Op) : List Nat := ops.filterMap resetOf
+
+/-- the cursor value each epoch of a history starts from: epoch 0 starts at 0 (genesis), epoch `k + 1` at the
+value installed by the `k`-th reset op of the history. A function of the op history alone. -/
+def epochStarts (ops : List Op) : List Nat := 0 :: resetsOf ops
+
+/-- the bridge deployment id on record after a history: the argument of its last activation, 0 (none) if
+there is none. A function of the op history alone. -/
+def deploymentOf (ops : List Op) : Nat :=
+  ops.foldl (fun d op => match op with | .activate c => c | _ => d) 0
+
+/-- the entries of the log that were made in epoch `e` -/
+def St.obsOf (s : St) (e : Nat) : List Obs := s.log.filter (fun o => o.epoch == e)
+
+theorem obsOf_current (s : St) : s.obsOf s.epoch = s.observations := rfl
+
+theorem resetsOf_snoc (l : List Op) (op : Op) :
+    resetsOf (l ++ [op]) = resetsOf l ++ (match resetOf op with | some n => [n] | none => []) := by
+  unfold resetsOf
+  rw [List.filterMap_append]
+  cases h : resetOf op <;> simp [List.filterMap_cons, h]
+
+/-- what an op does to the ghost epoch counter, the epoch start and the deployment id -/
+theorem apply_epoch (s : St) (op : Op) (hi : Inv s) :
+    (resetOf op = none → (apply s op).epoch = s.epoch ∧ (apply s op).epochStart = s.epochStart) ∧
+    (∀ n, resetOf op = some n → (apply s op).epoch = s.epoch + 1 ∧ (apply s op).epochStart = n ∧
+      (apply s op).lastObserved = n ∧ (apply s op).log = s.log) ∧
+    ((apply s op).compassId = match op with | .activate c => c | _ => s.compassId) := by
+  cases op with
+  | vote v n h eth ap amt cp =>
+    rcases vote_cases s v n h eth ap amt cp with ⟨_, he⟩ | ⟨_, _, _, he⟩ <;> simp [apply, he, resetOf]
+  | tally p f =>
+    obtain ⟨new, _, h1, h2, _, h3, _⟩ := tally_log s (powerOf p) (totalOf p) (faultOf f) hi
+    simp [apply, resetOf, h1, h2, h3]
+  | catchUp => simp [apply, catchUp, resetOf]
+  | override n => simp [apply, override, resetOf]
+  | activate c => simp [apply, activate, override, resetOf]
+
+/-- every op appends to the log only entries of the epoch it was applied in -/
+theorem apply_log_epoch (s : St) (op : Op) (hi : Inv s) :
+    ∃ new, (apply s op).log = s.log ++ new ∧ ∀ o ∈ new, o.epoch = s.epoch := by
+  obtain ⟨new, hl, hq⟩ := apply_log s op hi
+  refine ⟨new, hl, ?_⟩
+  intro o ho
+  obtain ⟨_, _, _, hD, _⟩ := hq o ho
+  exact hD.1
+
+theorem filter_epoch_new {new : List Obs} {e e' : Nat} (h : ∀ o ∈ new, o.epoch = e') (hne : e ≠ e') :
+    new.filter (fun o => o.epoch == e) = [] := by
+  rw [List.filter_eq_nil_iff]
+  intro o ho
+  have := h o ho
+  simp only [beq_iff_eq]
+  omega
+
+theorem filter_epoch_all {new : List Obs} {e : Nat} (h : ∀ o ∈ new, o.epoch = e) :
+    new.filter (fun o => o.epoch == e) = new :=
+  List.filter_eq_self.mpr (fun o ho => by simp [h o ho])
+
+/-- what consecutive nonces after `st` mean, entry by entry -/
+theorem consecutive_facts (l : List Obs) (st : Nat) (h : l.map (·.nonce) = List.range' (st + 1) l.length) :
+    l.Pairwise (fun a b => a.nonce < b.nonce) ∧
+    (∀ o ∈ l, st < o.nonce ∧ o.nonce ≤ st + l.length) ∧
+    (∀ n, st < n → n ≤ st + l.length → (l.filter (fun o => o.nonce == n)).length = 1) := by
+  have hp : l.Pairwise (fun a b => a.nonce < b.nonce) := by
+    have : (l.map (·.nonce)).Pairwise (· < ·) := by rw [h]; exact List.pairwise_lt_range' 1
+    exact List.pairwise_map.mp this
+  refine ⟨hp, ?_, ?_⟩
+  · intro o ho
+    have : o.nonce ∈ l.map (·.nonce) := List.mem_map.mpr ⟨o, ho, rfl⟩
+    rw [h, List.mem_range'_1] at this
+    omega
+  · intro n h1 h2
+    have hmem : n ∈ l.map (·.nonce) := by rw [h, List.mem_range'_1]; omega
+    obtain ⟨o, ho, hn⟩ := List.mem_map.mp hmem
+    have hge : 0 < (l.filter (fun o => o.nonce == n)).length :=
+      List.length_pos_of_mem (List.mem_filter.mpr ⟨ho, by simp [hn]⟩)
+    have hle := filter_length_le_one (fun o : Obs => o.nonce == n) l
+      (hp.imp (by
+        intro x y hxy hq
+        simp only [beq_iff_eq] at hq
+        omega))
+    omega
+
+/-- two entries with the same nonce in a list of strictly increasing nonces are the same entry -/
+theorem increasing_unique {l : List Obs} (hp : l.Pairwise (fun a b => a.nonce < b.nonce)) {e₁ e₂ : Obs}
+    (h₁ : e₁ ∈ l) (h₂ : e₂ ∈ l) (hn : e₁.nonce = e₂.nonce) : e₁ = e₂ := by
+  rcases List.mem_iff_getElem.mp h₁ with ⟨i, hi, rfl⟩
+  rcases List.mem_iff_getElem.mp h₂ with ⟨j, hj, rfl⟩
+  have hlt := List.pairwise_iff_getElem.mp hp
+  rcases Nat.lt_trichotomy i j with h | h | h
+  · have := hlt i j hi hj h; omega
+  · subst h; rfl
+  · have := hlt j i hj hi h; omega
+
+/-- what an op that is not a reset does between two states satisfying the invariant: it appends to the log
+exactly as many entries as it moves the cursor, with the consecutive nonces after the old cursor -/
+theorem apply_consecutive (s : St) (op : Op) (hi : Inv s) (hr : resetOf op = none) :
+    ∃ new, (apply s op).log = s.log ++ new ∧
+      new.map (·.nonce) = List.range' (s.lastObserved + 1) new.length ∧
+      (apply s op).lastObserved = s.lastObserved + new.length := by
+  obtain ⟨new, hl, hep⟩ := apply_log_epoch s op hi
+  obtain ⟨he, hes⟩ := (apply_epoch s op hi).1 hr
+  have hi' := apply_inv s op hi
+  have hobs : (apply s op).observations = s.observations ++ new := by
+    simp only [St.observations, hl, he, List.filter_append]
+    rw [filter_epoch_all hep]
+  refine ⟨new, hl, ?_, ?_⟩
+  · have h1 := hi'.consec
+    rw [hobs, hes, List.map_append, List.length_append, ← List.range'_append_1, hi.consec] at h1
+    have h2 := List.append_cancel_left h1
+    rw [h2, hi.cursor]
+    congr 1
+    omega
+  · have h1 := hi'.cursor
+    rw [hobs, hes, List.length_append] at h1
+    have := hi.cursor
+    omega
+
+/-! ### histories of real claims (the link to C11) -/
+
+open Paloma.ClaimHash in
+/-- a claim as the validators submit it: its type, the nonce and remote height (the first two hashed parts of
+every submittable type), the type-specific hashed fields in between, and the compass id (the last hashed
+part of every submittable type; `Props/C11.lean`, `hashed_fields_as_in_property`) -/
+structure OClaim where
+  ty : String
+  nonce : Nat
+  eth : Nat
+  mid : List Field
+  compass : List Nat
+deriving DecidableEq
+
+open Paloma.ClaimHash in
+/-- the hashed fields in format order -/
+def OClaim.fields (c : OClaim) : List Field := .num c.nonce :: .num c.eth :: (c.mid ++ [.str c.compass])
+
+open Paloma.ClaimHash in
+def OClaim.toClaim (c : OClaim) : Claim := { ty := c.ty, fields := c.fields }
+
+theorem OClaim.toClaim_inj {c c' : OClaim} (h : c.toClaim = c'.toClaim) : c = c' := by
+  cases c; cases c'
+  simp only [OClaim.toClaim, OClaim.fields, Paloma.ClaimHash.Claim.mk.injEq, List.cons.injEq,
+    Paloma.ClaimHash.Field.num.injEq] at h
+  obtain ⟨h1, h2, h3, h4⟩ := h
+  have h5 := List.append_inj' h4 rfl
+  simp only [List.cons.injEq, Paloma.ClaimHash.Field.str.injEq, and_true] at h5
+  simp [h1, h2, h3, h5.1, h5.2]
+
+/-- how a claim-level history is turned into the oracle's ops: `H` is the hash (of the pre-image bytes, as a
+number), `content` what applying the claim does as far as the oracle model carries it (whether the handler
+succeeds, and the amount) — ANY function of the claim, i.e. of its type and hashed fields —, `cc` the
+numbering of compass ids (the model compares them for equality only; 0 stands for the empty id) -/
+structure Lowering where
+  H : List Nat → Nat
+  content : OClaim → Bool × Nat
+  cc : List Nat → Nat
+
+/-- histories whose votes carry real claims -/
+inductive COp where
+  | vote (v : Nat) (c : OClaim)
+  | tally (power : List (Nat × Nat)) (failing : List (Nat × Nat))
+  | catchUp
+  | override (n : Nat)
+  | activate (compass : List Nat)
+
+open Paloma.ClaimHash in
+def Lowering.hash (L : Lowering) (c : OClaim) : Nat := L.H (preimage c.fields)
+
+def Lowering.voteOp (L : Lowering) (v : Nat) (c : OClaim) : Op :=
+  .vote v c.nonce (L.hash c) c.eth (L.content c).1 (L.content c).2 (L.cc c.compass)
+
+def Lowering.op (L : Lowering) : COp → Op
+  | .vote v c => L.voteOp v c
+  | .tally p f => .tally p f
+  | .catchUp => .catchUp
+  | .override n => .override n
+  | .activate c => .activate (L.cc c)
+
+/-- the claims voted for in a history -/
+def claimsOf : List COp → List OClaim
+  | [] => []
+  | .vote _ c :: rest => c :: claimsOf rest
+  | _ :: rest => claimsOf rest
+
+theorem mem_claimsOf {hist : List COp} {v : Nat} {c : OClaim} (h : COp.vote v c ∈ hist) : c ∈ claimsOf hist := by
+  induction hist with
+  | nil => simp at h
+  | cons x xs ih =>
+    rcases List.mem_cons.mp h with rfl | h'
+    · simp [claimsOf]
+    · cases x <;> simp [claimsOf, ih h']
+
+/-- a vote op in the lowered history comes from a vote for a claim in the claim-level history, at the same
+position -/
+theorem lowered_vote_origin (L : Lowering) (hist : List COp) (pre post : List Op) (v n h e : Nat) (ap : Bool)
+    (am cp : Nat) (he : hist.map L.op = pre ++ Op.vote v n h e ap am cp :: post) :
+    ∃ hpre c hpost, hist = hpre ++ COp.vote v c :: hpost ∧ hpre.map L.op = pre ∧ hpost.map L.op = post ∧
+      n = c.nonce ∧ h = L.hash c ∧ e = c.eth ∧ ap = (L.content c).1 ∧ am = (L.content c).2 ∧
+      cp = L.cc c.compass := by
+  obtain ⟨l₁, l₂, h1, h2, h3⟩ := List.map_eq_append_iff.mp he
+  obtain ⟨x, l₃, h4, h5, h6⟩ := List.map_eq_cons_iff.mp h3
+  cases x with
+  | vote w c =>
+    simp only [Lowering.op, Lowering.voteOp, Op.vote.injEq] at h5
+    obtain ⟨rfl, k1, k2, k3, k4, k5, k6⟩ := h5
+    exact ⟨l₁, c, l₃, by rw [h1, h4], h2, h6, k1.symm, k2.symm, k3.symm, k4.symm, k5.symm, k6.symm⟩
+  | tally p f => simp [Lowering.op] at h5
+  | catchUp => simp [Lowering.op] at h5
+  | override n => simp [Lowering.op] at h5
+  | activate c => simp [Lowering.op] at h5
+
+/-! ### all remote chains -/
+
+/-- what the end of a block does to the oracle of one active chain: `attestationTally`, and on every 50th
+block `UpdateValidatorNoncesToLatest` -/
+def endBlockOps (p f : List (Nat × Nat)) (catchUp : Bool) : List Op :=
+  if catchUp then [.tally p f, .catchUp] else [.tally p f]
+
+/-- everything that can happen to the oracles of ALL remote chains -/
+inductive MOp where
+  /-- an op addressed to one chain: a claim message names its chain (`GetChainReferenceId`, the store prefix
+  of everything `Attest` reads and writes), a governance override and a chain activation name theirs -/
+  | on (chain : Nat) (op : Op)
+  /-- end of a block (`EndBlocker`): for every active chain the tally with the ONE power table of this block
+  (an error in one chain's tally is logged and the loop goes on); `failing c` lists chain `c`'s attestations
+  whose observation event cannot be emitted -/
+  | endBlock (active : List Nat) (power : List (Nat × Nat)) (failing : Nat → List (Nat × Nat)) (catchUp : Bool)
+
+/-- ASSUMPTION (x/skyway `GetStore(ctx, chainReferenceID)`: the per-chain stores are disjoint prefixes): an op
+touches the state of the chain(s) it addresses and nothing else -/
+def applyM (m : Nat → St) : MOp → (Nat → St)
+  | .on c op => fun c' => if c' = c then apply (m c') op else m c'
+  | .endBlock active p f cu => fun c' =>
+      if c' ∈ active then (endBlockOps p (f c') cu).foldl apply (m c') else m c'
+
+def runM (ops : List MOp) : Nat → St := ops.foldl applyM (fun _ => St.init)
+
+/-- the single-chain history a multi-chain history amounts to for chain `c` -/
+def projOp (c : Nat) : MOp → List Op
+  | .on c' op => if c = c' then [op] else []
+  | .endBlock active p f cu => if c ∈ active then endBlockOps p (f c) cu else []
+
+theorem run_append (a b : List Op) : run (a ++ b) = b.foldl apply (run a) := by
+  simp [run, List.foldl_append]
+
+/-- the hash does not collide on the pre-images of the two claims (pointwise; nothing global) -/
+def NoCollisionAt (L : Lowering) (c c' : OClaim) : Prop :=
+  L.hash c = L.hash c' → Paloma.ClaimHash.preimage c.fields = Paloma.ClaimHash.preimage c'.fields
 
 end Lemmas
 
@@ -813,7 +1165,7 @@ more than 66 % of that tally's total. -/
 theorem log_provenance (ops : List Op) :
     ∀ o ∈ (run ops).log, ∃ pre p f post, ops = pre ++ Op.tally p f :: post ∧
       o ∈ (run (pre ++ [Op.tally p f])).log ∧
-      QuorumObs (run pre) (powerOf p) (totalOf p) o := by
+      DeployObs (run pre) o ∧ QuorumObs (run pre) (powerOf p) (totalOf p) o := by
   induction ops using rev_induction with
   | hnil => intro o ho; simp [run, St.init] at ho
   | hsnoc l op ih =>
@@ -822,10 +1174,10 @@ theorem log_provenance (ops : List Op) :
     obtain ⟨new, hl, hq⟩ := apply_log (run l) op (run_inv l)
     rw [hl] at ho
     rcases List.mem_append.mp ho with ho | ho
-    · obtain ⟨pre, p, f, post, he, hin, hQ⟩ := ih o ho
-      exact ⟨pre, p, f, post ++ [op], by simp [he], hin, hQ⟩
-    · obtain ⟨p, f, rfl, hQ⟩ := hq o ho
-      exact ⟨l, p, f, [], rfl, by rw [run_snoc, hl]; exact List.mem_append.mpr (Or.inr ho), hQ⟩
+    · obtain ⟨pre, p, f, post, he, hin, hD, hQ⟩ := ih o ho
+      exact ⟨pre, p, f, post ++ [op], by simp [he], hin, hD, hQ⟩
+    · obtain ⟨p, f, rfl, hD, hQ⟩ := hq o ho
+      exact ⟨l, p, f, [], rfl, by rw [run_snoc, hl]; exact List.mem_append.mpr (Or.inr ho), hD, hQ⟩
 
 /-- **votes_were_cast** ("have each voted for that identical claim"). Every validator in the vote list of a
 stored attestation has an accepted vote op in the history for exactly that claim `(nonce, hash)` and with
@@ -837,24 +1189,25 @@ theorem votes_were_cast (ops : List Op) :
   | hsnoc l op ih =>
     intro a' ha' w hw
     rw [run_snoc] at ha'
-    rcases apply_votes (run l) op (run_inv l) a' ha' w hw with ⟨a, ha, h1, h2, h3, hwa⟩ | ⟨ap, amt, rfl, hok⟩
+    rcases apply_votes (run l) op (run_inv l) a' ha' w hw with ⟨a, ha, h1, h2, h3, hwa⟩ | ⟨ap, amt, cp, rfl, hok⟩
     · have := ih a ha w hwa
       rw [h1, h2, h3] at this
       exact this.snoc op
-    · exact ⟨l, ap, amt, [], rfl, hok⟩
+    · exact ⟨l, ap, amt, cp, [], rfl, hok⟩
 
 /-- **claim_content_was_submitted.** The claim content stored with an attestation (remote height, whether
-the handler can apply it, amount) is the content of an accepted vote op of the history for that `(nonce, hash)`. -/
+the handler can apply it, amount, compass id) is the content of an accepted vote op of the history for that
+`(nonce, hash)`. -/
 theorem claim_content_was_submitted (ops : List Op) :
-    ∀ a ∈ (run ops).atts, SubmittedIn ops a.nonce a.hash a.eth a.applicable a.amount := by
+    ∀ a ∈ (run ops).atts, SubmittedIn ops a.nonce a.hash a.eth a.applicable a.amount a.compass := by
   induction ops using rev_induction with
   | hnil => intro a ha; simp [run, St.init] at ha
   | hsnoc l op ih =>
     intro a' ha'
     rw [run_snoc] at ha'
-    rcases apply_origin (run l) op (run_inv l) a' ha' with ⟨a, ha, h1, h2, h3, h4, h5⟩ | ⟨v, rfl, hok⟩
+    rcases apply_origin (run l) op (run_inv l) a' ha' with ⟨a, ha, h1, h2, h3, h4, h5, h6⟩ | ⟨v, rfl, hok⟩
     · have := ih a ha
-      rw [h1, h2, h3, h4, h5] at this
+      rw [h1, h2, h3, h4, h5, h6] at this
       exact this.snoc op
     · exact ⟨l, v, [], rfl, hok⟩
 
@@ -866,24 +1219,34 @@ appended by a tally op of the history. At that point of the history (`pre`) the 
 pairwise distinct, their summed power under THAT tally's table exceeded 66 % of THAT table's total (and is at
 most the total: a genuine fraction), and every one of them has an accepted vote op for the very same claim
 `(nonce, hash)` at the same remote height earlier in the history (before the tally); the claim content was
-submitted by an accepted vote; the entry is not in the log before that tally and is in it right after. -/
+submitted by an accepted vote; the entry is not in the log before that tally and is in it right after; and
+the claim belongs to the bridge deployment recorded at that point (or none was recorded). -/
 theorem effect_requires_quorum (ops : List Op) :
     ∀ o ∈ (run ops).log, ∃ pre p f post, ops = pre ++ Op.tally p f :: post ∧
       o.voters.Nodup ∧
       100 * (o.voters.map (powerOf p)).sum > 66 * totalOf p ∧
       (o.voters.map (powerOf p)).sum ≤ totalOf p ∧
       (∀ v ∈ o.voters, VotedIn pre v o.nonce o.hash o.eth) ∧
-      SubmittedIn pre o.nonce o.hash o.eth o.applicable o.amount ∧
-      o ∉ (run pre).log ∧ o ∈ (run (pre ++ [Op.tally p f])).log := by
+      SubmittedIn pre o.nonce o.hash o.eth o.applicable o.amount o.compass ∧
+      o ∉ (run pre).log ∧ o ∈ (run (pre ++ [Op.tally p f])).log ∧
+      ((run pre).compassId = 0 ∨ o.compass = (run pre).compassId) := by
   intro o ho
-  obtain ⟨pre, p, f, post, he, hin, a, ha, h0, h1, h2, h3, h4, h5, h6, h7, h8⟩ := log_provenance ops o ho
-  refine ⟨pre, p, f, post, he, h6 ▸ h7, h6 ▸ h8, voters_power_le_total _ (h6 ▸ h7) p, ?_, ?_, ?_, hin⟩
+  obtain ⟨pre, p, f, post, he, hin, hD, a, ha, h0, h1, h2, h3, h4, h5, h6, h7, h8⟩ := log_provenance ops o ho
+  have hcp : a.compass = o.compass := by
+    have hin' := hin
+    obtain ⟨a', ha', k1, k2, _, _, _, _, k7⟩ := (reachable_inv (pre ++ [Op.tally p f])).obsAtt o hin'
+    rw [run_snoc] at ha'
+    obtain ⟨a0, ha0, q1, q2, _, _, _, _, q7⟩ := tally_atts (run pre) _ _ _ (reachable_inv pre) a' ha'
+    have : a0 = a := keys_unique (reachable_inv pre).keys ha0 ha ⟨by omega, by omega⟩
+    subst this
+    omega
+  refine ⟨pre, p, f, post, he, h6 ▸ h7, h6 ▸ h8, voters_power_le_total _ (h6 ▸ h7) p, ?_, ?_, ?_, hin, hD.2.2⟩
   · intro v hv
     have := votes_were_cast pre a ha v (h6 ▸ hv)
     rw [h1, h2, h3] at this
     exact this
   · have := claim_content_was_submitted pre a ha
-    rw [h1, h2, h3, h4, h5] at this
+    rw [h1, h2, h3, h4, h5, hcp] at this
     exact this
   · intro hmem
     obtain ⟨a', ha', k1, k2, k3, _⟩ := (reachable_inv pre).obsAtt o hmem
@@ -891,57 +1254,160 @@ theorem effect_requires_quorum (ops : List Op) :
     subst this
     rw [h0] at k3; cases k3
 
-/-- **voters_voted_identical_claim.** Under the hash assumption the votes behind an effect are votes for the
-identical claim in every modelled component: each voter's accepted vote op carries the nonce, hash, remote
-height, applicability and amount of the claim that took effect. -/
+/-- **voters_voted_identical_claim.** If the hash identifies the claim content (`HashIdentifiesClaim`, a
+condition on the ACCEPTED votes of the history that `hash_identifies_claim_of_preimages` derives from C11's
+pre-image theorems), the votes behind an effect are votes for the identical claim in every modelled
+component: each voter's accepted vote op carries the nonce, hash, remote height, applicability, amount and
+compass id of the claim that took effect. -/
 theorem voters_voted_identical_claim (ops : List Op) (hc : HashIdentifiesClaim ops) :
-    ∀ o ∈ (run ops).log, ∀ v ∈ o.voters, ∃ pre post,
-      ops = pre ++ Op.vote v o.nonce o.hash o.eth o.applicable o.amount :: post ∧
-      (vote (run pre) v o.nonce o.hash o.eth o.applicable o.amount).2 = .ok := by
+    ∀ o ∈ (run ops).log, ∀ v ∈ o.voters, AcceptedIn ops v o.nonce o.hash o.eth o.applicable o.amount o.compass := by
   intro o ho v hv
   obtain ⟨pre, p, f, post, he, _, _, _, hvoted, hsub, _⟩ := effect_requires_quorum ops o ho
-  obtain ⟨pre1, ap, amt, post1, he1, hok⟩ := hvoted v hv
+  obtain ⟨pre1, ap, amt, cp, post1, he1, hok⟩ := hvoted v hv
+  obtain ⟨pre2, v2, post2, he2, hok2⟩ := hsub
+  have hm1 : AcceptedIn ops v o.nonce o.hash o.eth ap amt cp :=
+    ⟨pre1, post1 ++ Op.tally p f :: post, by rw [he, he1]; simp, hok⟩
+  have hm2 : AcceptedIn ops v2 o.nonce o.hash o.eth o.applicable o.amount o.compass :=
+    ⟨pre2, post2 ++ Op.tally p f :: post, by rw [he, he2]; simp, hok2⟩
+  obtain ⟨rfl, rfl, rfl⟩ := hc _ _ _ _ _ _ _ _ _ _ _ _ hm1 hm2
+  exact hm1
+
+open Paloma.ClaimHash in
+/-- **every_wellTyped_claim_is_an_oracle_claim.** The claim-level histories below lose nothing: every
+well-typed claim of a submittable type (C11) has the layout of an `OClaim` — nonce, remote height, the
+type-specific fields, compass id. -/
+theorem every_wellTyped_claim_is_an_oracle_claim (c : Claim) (hc : c.wellTyped = true) :
+    ∃ oc : OClaim, oc.toClaim = c := by
+  unfold Claim.wellTyped at hc
+  obtain ⟨d, hd, hdc⟩ := List.any_eq_true.mp hc
+  simp only [Bool.and_eq_true, beq_iff_eq] at hdc
+  obtain ⟨hn, hs⟩ := hdc
+  have hform := shapes_have_oracle_form
+  rw [List.all_eq_true] at hform
+  have hd' := hform d hd
+  cases hk : shapeOf d with
+  | none => simp [hk] at hs
+  | some ks =>
+    simp only [hk] at hs hd'
+    split at hd'
+    · rename_i rest heq
+      simp only [Option.some.injEq] at heq
+      subst heq
+      simp only [beq_iff_eq] at hd'
+      obtain ⟨ys, hys⟩ := List.getLast?_eq_some_iff.mp hd'
+      subst hys
+      obtain ⟨n, r1, h1, hs1⟩ := hasShape_cons_num hs
+      obtain ⟨e, r2, h2, hs2⟩ := hasShape_cons_num hs1
+      obtain ⟨mid, b, h3⟩ := hasShape_snoc_str ys r2 hs2
+      refine ⟨{ ty := c.ty, nonce := n, eth := e, mid := mid, compass := b }, ?_⟩
+      cases c
+      simp only [OClaim.toClaim, OClaim.fields, Claim.mk.injEq, true_and]
+      simp only at h1
+      rw [h1, h2, h3]
+    · simp at hd'
+
+/-- **hash_identifies_claim_of_preimages** (`HashIdentifiesClaim` is DERIVED from C11, not assumed). Take any
+history whose votes carry real claims — each an instance of a submittable claim type of the current source
+(`Claim.wellTyped`, checked against the regenerated format table) — lowered to oracle ops by hashing the
+pre-image (`Model/ClaimHash.lean`) and attaching what applying the claim does (`content`: any function of
+type and hashed fields). ASSUMPTION (external, pointwise): the hash does not collide on the pre-images of
+the claims that occur in THIS history (`NoCollisionAt`; no global injectivity). Then in the lowered history a
+claim hash identifies the claim content: C11's `same_key_same_claim` makes two claims with one `(nonce,
+hash)` the same claim, of the same type, with the same value in every hashed field. -/
+theorem hash_identifies_claim_of_preimages (L : Lowering) (hist : List COp)
+    (hwt : ∀ c ∈ claimsOf hist, c.toClaim.wellTyped = true)
+    (hnc : ∀ c ∈ claimsOf hist, ∀ c' ∈ claimsOf hist, NoCollisionAt L c c') :
+    HashIdentifiesClaim (hist.map L.op) := by
+  intro v n h e ap am cp v' e' ap' am' cp' ⟨pre, post, he, _⟩ ⟨pre', post', he', _⟩
+  obtain ⟨hpre, c, hpost, hh, _, _, _, k2, _, k4, k5, k6⟩ := lowered_vote_origin L hist pre post v n h e ap am cp he
+  obtain ⟨hpre', c', hpost', hh', _, _, _, k2', _, k4', k5', k6'⟩ :=
+    lowered_vote_origin L hist pre' post' v' n h e' ap' am' cp' he'
+  have hc : c ∈ claimsOf hist := mem_claimsOf (v := v) (by rw [hh]; simp)
+  have hc' : c' ∈ claimsOf hist := mem_claimsOf (v := v') (by rw [hh']; simp)
+  have hkey : L.hash c = L.hash c' := by rw [← k2, ← k2']
+  have := OClaim.toClaim_inj
+    (Paloma.ClaimHash.same_key_same_claim L.H c.toClaim c'.toClaim (hwt c hc) (hwt c' hc') (hnc c hc c' hc') hkey)
+  subst this
+  exact ⟨by rw [k4, k4'], by rw [k5, k5'], by rw [k6, k6']⟩
+
+/-- **honest_votes_counted_only_for_identical_claim** (C02's "have each voted for that identical claim" and
+C11's second sentence, "a validator can therefore never get honest votes counted towards a claim whose
+effect differs from what the honest validators saw", as one statement over whole histories). For every
+history of votes for real claims (any validators, any order, competing claims of the same or of different
+claim types at the same and at different nonces), tallies with any power tables, catch-ups, governance
+overrides and chain activations: every claim that ever takes effect is a claim `c` that was submitted in
+the history; what took effect is `content c`; and EVERY validator whose power was counted towards it has an
+accepted vote op in the history for that very claim `c` — the same type and the same value of every hashed
+field (nonce, remote height, token, amount, sender, receiver, batch nonce, buyer, originating contract,
+deployment id). Only external assumption: pointwise collision freeness of the hash on the claims of the
+history. -/
+theorem honest_votes_counted_only_for_identical_claim (L : Lowering) (hist : List COp)
+    (hwt : ∀ c ∈ claimsOf hist, c.toClaim.wellTyped = true)
+    (hnc : ∀ c ∈ claimsOf hist, ∀ c' ∈ claimsOf hist, NoCollisionAt L c c') :
+    ∀ o ∈ (run (hist.map L.op)).log, ∃ c ∈ claimsOf hist,
+      o.nonce = c.nonce ∧ o.hash = L.hash c ∧ o.eth = c.eth ∧
+      o.applicable = (L.content c).1 ∧ o.amount = (L.content c).2 ∧ o.compass = L.cc c.compass ∧
+      ∀ v ∈ o.voters, ∃ hpre hpost, hist = hpre ++ COp.vote v c :: hpost ∧
+        (vote (run (hpre.map L.op)) v c.nonce (L.hash c) c.eth (L.content c).1 (L.content c).2
+          (L.cc c.compass)).2 = .ok := by
+  intro o ho
+  obtain ⟨pre, p, f, post, he, _, _, _, hvoted, hsub, _⟩ := effect_requires_quorum (hist.map L.op) o ho
   obtain ⟨pre2, v2, post2, he2, _⟩ := hsub
-  have hm1 : Op.vote v o.nonce o.hash o.eth ap amt ∈ ops := by rw [he, he1]; simp
-  have hm2 : Op.vote v2 o.nonce o.hash o.eth o.applicable o.amount ∈ ops := by rw [he, he2]; simp
-  obtain ⟨rfl, rfl⟩ := hc _ _ _ _ _ _ _ _ _ _ hm1 hm2
-  exact ⟨pre1, post1 ++ Op.tally p f :: post, by rw [he, he1]; simp, hok⟩
+  have he2' : hist.map L.op = pre2 ++ Op.vote v2 o.nonce o.hash o.eth o.applicable o.amount o.compass ::
+      (post2 ++ Op.tally p f :: post) := by rw [he, he2]; simp
+  obtain ⟨hpre2, c, hpost2, hh2, _, _, k1, k2, k3, k4, k5, k6⟩ := lowered_vote_origin L hist _ _ _ _ _ _ _ _ _ he2'
+  have hc : c ∈ claimsOf hist := mem_claimsOf (v := v2) (by rw [hh2]; simp)
+  refine ⟨c, hc, k1, k2, k3, k4, k5, k6, ?_⟩
+  intro v hv
+  obtain ⟨pre1, ap, amt, cp, post1, he1, hok⟩ := hvoted v hv
+  have he1' : hist.map L.op = pre1 ++ Op.vote v o.nonce o.hash o.eth ap amt cp :: (post1 ++ Op.tally p f :: post) := by
+    rw [he, he1]; simp
+  obtain ⟨hpre1, c1, hpost1, hh1, hp1, _, j1, j2, j3, j4, j5, j6⟩ := lowered_vote_origin L hist _ _ _ _ _ _ _ _ _ he1'
+  have hc1 : c1 ∈ claimsOf hist := mem_claimsOf (v := v) (by rw [hh1]; simp)
+  have hkey : L.hash c1 = L.hash c := by rw [← j2, ← k2]
+  have := OClaim.toClaim_inj
+    (Paloma.ClaimHash.same_key_same_claim L.H c1.toClaim c.toClaim (hwt c1 hc1) (hwt c hc) (hnc c1 hc1 c hc) hkey)
+  subst this
+  refine ⟨hpre1, hpost1, hh1, ?_⟩
+  rw [hp1, ← j1, ← j2, ← j3, ← j4, ← j5, ← j6]
+  exact hok
 
 /-- **tally_without_quorum_is_noop** (the negative side of the quorum clause, for ANY state and ANY power
 table). A whole end-of-block tally leaves the state untouched — cursor, heights, observed flags, minted
 total, log — unless some stored, not yet observed attestation at exactly cursor + 1 has voters with more
-than 66 % of the total AND a remote height not below the last observed one. Competing claims, claims at
-other nonces, minorities, already observed claims and refused heights change nothing. -/
+than 66 % of the total AND a remote height not below the last observed one AND belongs to the current bridge
+deployment (if one is recorded). Competing claims, claims at other nonces, claims of other deployments,
+minorities, already observed claims and refused heights change nothing. -/
 theorem tally_without_quorum_is_noop (s : St) (power : Nat → Nat) (total : Nat) (ef : EventFault)
-    (h : ∀ a ∈ s.atts, a.nonce = s.lastObserved + 1 → a.observed = false →
+    (h : ∀ a ∈ s.atts, Visible s a → a.nonce = s.lastObserved + 1 → a.observed = false →
       100 * (a.votes.map power).sum ≤ 66 * total ∨ a.eth < s.lastEth) :
     tally s power total ef = s := by
   refine tally_induct (fun s' => s' = s) s power total ef ?_ rfl
-  intro s' a hs ha hn
+  intro s' a hs ha hvis hn
   subst hs
   rcases tryAtt_cases s' a power total ef with he | ⟨h1, h2, _, h4, _⟩
   · exact he
   · exfalso
-    rcases h a ha hn h1 with hq | hq
+    rcases h a ha hvis hn h1 with hq | hq
     · have := not_reaches_of_le power total a.votes hq
       rw [h2] at this; cases this
     · omega
 
 /-- **state_change_requires_quorum** (step form of the quorum clause, any state). If an op changes the minted
-total, the log, the last observed remote height or the cursor, it is either a governance override (which
-changes the cursor only) or a tally whose table gives some stored unobserved attestation at cursor + 1 more
-than 66 % of the table's total. Votes and catch-ups never do. -/
+total, the log, the last observed remote height or the cursor, it is either a governance override or a chain
+activation (which change the cursor only) or a tally whose table gives some stored unobserved attestation of
+the current deployment at cursor + 1 more than 66 % of the table's total. Votes and catch-ups never do. -/
 theorem state_change_requires_quorum (s : St) (op : Op)
     (h : (apply s op).minted ≠ s.minted ∨ (apply s op).log ≠ s.log ∨ (apply s op).lastEth ≠ s.lastEth ∨
       (apply s op).lastObserved ≠ s.lastObserved) :
-    (∃ n, op = .override n ∧ (apply s op).minted = s.minted ∧ (apply s op).log = s.log ∧
-      (apply s op).lastEth = s.lastEth ∧ (apply s op).atts = s.atts) ∨
-    (∃ p f, op = .tally p f ∧ ∃ a ∈ s.atts, a.nonce = s.lastObserved + 1 ∧ a.observed = false ∧
+    ((∃ n, op = .override n) ∨ (∃ c, op = .activate c)) ∧ (apply s op).minted = s.minted ∧
+      (apply s op).log = s.log ∧ (apply s op).lastEth = s.lastEth ∧ (apply s op).atts = s.atts ∨
+    (∃ p f, op = .tally p f ∧ ∃ a ∈ s.atts, Visible s a ∧ a.nonce = s.lastObserved + 1 ∧ a.observed = false ∧
       s.lastEth ≤ a.eth ∧ 100 * (a.votes.map (powerOf p)).sum > 66 * totalOf p) := by
   cases op with
-  | vote v n hh eth ap amt =>
+  | vote v n hh eth ap amt cp =>
     exfalso
-    rcases vote_cases s v n hh eth ap amt with ⟨_, he⟩ | ⟨_, _, _, he⟩ <;>
+    rcases vote_cases s v n hh eth ap amt cp with ⟨_, he⟩ | ⟨_, _, _, he⟩ <;>
       simp only [apply, he] at h <;> simp at h
   | tally p f =>
     right
@@ -949,19 +1415,257 @@ theorem state_change_requires_quorum (s : St) (op : Op)
     apply Classical.byContradiction
     intro hno
     have hnoop := tally_without_quorum_is_noop s (powerOf p) (totalOf p) (faultOf f) (by
-      intro a ha hn hobs
+      intro a ha hvis hn hobs
       by_cases hq : 100 * (a.votes.map (powerOf p)).sum ≤ 66 * totalOf p
       · exact Or.inl hq
       · by_cases he : a.eth < s.lastEth
         · exact Or.inr he
-        · exact absurd ⟨a, ha, hn, hobs, by omega, by omega⟩ hno)
+        · exact absurd ⟨a, ha, hvis, hn, hobs, by omega, by omega⟩ hno)
     simp only [apply, hnoop] at h
     simp at h
   | catchUp => exfalso; simp [apply, catchUp] at h
-  | override n => left; exact ⟨n, rfl, rfl, rfl, rfl, rfl⟩
+  | override n => left; exact ⟨Or.inl ⟨n, rfl⟩, rfl, rfl, rfl, rfl⟩
+  | activate c => left; exact ⟨Or.inr ⟨c, rfl⟩, rfl, rfl, rfl, rfl⟩
 
-/-- **cursor_consecutive** ("claims take effect in strictly consecutive nonce order", "at most one claim per
-event nonce"), over whole histories. Since the last governance reset (which installed `epochStart`) the
+/-- **epoch_is_number_of_resets / epochStart_is_last_reset / deployment_is_last_activation** (the ghosts
+`epoch`, `epochStart` and the state field `compassId` are functions of the op history). After every history
+the epoch counter is the number of reset ops (governance overrides and chain activations) in it, `epochStart`
+is the value installed by the last of them (0 if there is none), so `epochStarts ops` lists the start of
+every epoch up to the current one, and the deployment id on record is the argument of the last activation. -/
+theorem epoch_is_number_of_resets (ops : List Op) :
+    (run ops).epoch = (resetsOf ops).length ∧
+    (epochStarts ops)[(run ops).epoch]? = some (run ops).epochStart ∧
+    (epochStarts ops).getLast? = some (run ops).epochStart ∧
+    (run ops).compassId = deploymentOf ops := by
+  induction ops using rev_induction with
+  | hnil => simp [run, St.init, resetsOf, epochStarts, deploymentOf]
+  | hsnoc l op ih =>
+    obtain ⟨ih1, ih2, ih3, ih4⟩ := ih
+    have hst := apply_epoch (run l) op (run_inv l)
+    rw [run_snoc]
+    have hd : (apply (run l) op).compassId = deploymentOf (l ++ [op]) := by
+      rw [hst.2.2, ih4]
+      unfold deploymentOf
+      rw [List.foldl_append]
+      cases op <;> rfl
+    cases hr : resetOf op with
+    | none =>
+      obtain ⟨h1, h2⟩ := hst.1 hr
+      have hrs : resetsOf (l ++ [op]) = resetsOf l := by rw [resetsOf_snoc, hr]; simp
+      refine ⟨by rw [h1, hrs, ih1], ?_, ?_, hd⟩
+      · unfold epochStarts at ih2 ⊢; rw [h1, h2, hrs, ih2]
+      · unfold epochStarts at ih3 ⊢; rw [h2, hrs, ih3]
+    | some n =>
+      obtain ⟨h1, h2, _, _⟩ := hst.2.1 n hr
+      have hrs : resetsOf (l ++ [op]) = resetsOf l ++ [n] := by rw [resetsOf_snoc, hr]
+      refine ⟨by rw [h1, hrs, ih1]; simp, ?_, ?_, hd⟩
+      · unfold epochStarts
+        rw [h1, h2, hrs, ih1]
+        rw [show 0 :: (resetsOf l ++ [n]) = (0 :: resetsOf l) ++ [n] from rfl]
+        rw [List.getElem?_append_right (by simp)]
+        simp
+      · unfold epochStarts
+        rw [h2, hrs, show 0 :: (resetsOf l ++ [n]) = (0 :: resetsOf l) ++ [n] from rfl,
+          List.getLast?_append]
+        simp
+
+/-- **log_epoch_tied_to_history.** The ghost fields `epoch` and `deployment` of a log entry are functions of
+the history too: an entry appended by the tally after `pre` carries the number of reset ops in `pre` and the
+deployment id of the last activation in `pre`; its claim is of that deployment unless none is recorded; and
+no entry is of a later epoch than the current one. -/
+theorem log_epoch_tied_to_history (ops : List Op) :
+    (∀ o ∈ (run ops).log, ∃ pre p f post, ops = pre ++ Op.tally p f :: post ∧
+      o ∉ (run pre).log ∧ o ∈ (run (pre ++ [Op.tally p f])).log ∧
+      o.epoch = (resetsOf pre).length ∧ o.deployment = deploymentOf pre ∧
+      (deploymentOf pre = 0 ∨ o.compass = deploymentOf pre)) ∧
+    (∀ o ∈ (run ops).log, o.epoch ≤ (run ops).epoch) := by
+  refine ⟨?_, (reachable_inv ops).epochLe⟩
+  intro o ho
+  obtain ⟨pre, p, f, post, he, hin, hD, a, ha, h0, h1, h2, _⟩ := log_provenance ops o ho
+  obtain ⟨t1, _, _, t4⟩ := epoch_is_number_of_resets pre
+  refine ⟨pre, p, f, post, he, ?_, hin, by rw [hD.1, t1], by rw [hD.2.1, t4], by rw [← t4]; exact hD.2.2⟩
+  intro hmem
+  obtain ⟨a', ha', k1, k2, k3, _⟩ := (reachable_inv pre).obsAtt o hmem
+  have : a' = a := keys_unique (reachable_inv pre).keys ha' ha ⟨by omega, by omega⟩
+  subst this
+  rw [h0] at k3; cases k3
+
+/-- **every_epoch_consecutive** ("between governance resets … at most one claim per event nonce takes effect
+… and claims take effect in strictly consecutive nonce order", for EVERY interval between resets of the
+history, not only the current one). For every epoch `e` of the history — `st` being the cursor value that
+epoch started from, i.e. 0 for `e = 0` and the value installed by the `e`-th reset op otherwise — the nonces
+of the claims that took effect in epoch `e`, in the order they took effect, are exactly
+`st + 1, st + 2, …`: no gap, no repetition, no reordering. -/
+theorem every_epoch_consecutive (ops : List Op) :
+    ∀ e st, (epochStarts ops)[e]? = some st →
+      ((run ops).obsOf e).map (·.nonce) = List.range' (st + 1) ((run ops).obsOf e).length := by
+  induction ops using rev_induction with
+  | hnil =>
+    intro e st _
+    simp [run, St.init, St.obsOf]
+  | hsnoc l op ih =>
+    intro e st hst
+    have hi := run_inv l
+    obtain ⟨t1, t2, _, _⟩ := epoch_is_number_of_resets l
+    obtain ⟨t1', t2', _, _⟩ := epoch_is_number_of_resets (l ++ [op])
+    obtain ⟨new, hl, hep⟩ := apply_log_epoch (run l) op hi
+    have hlen : e < (epochStarts (l ++ [op])).length := by
+      rcases Nat.lt_or_ge e (epochStarts (l ++ [op])).length with h | h
+      · exact h
+      · rw [List.getElem?_eq_none h] at hst; cases hst
+    by_cases hcur : e = (run (l ++ [op])).epoch
+    · -- the current epoch: the invariant of the new state
+      subst hcur
+      rw [t2'] at hst
+      cases hst
+      rw [obsOf_current]
+      exact (run_inv (l ++ [op])).consec
+    · -- a closed epoch: nothing was added to it, and its start is where it was
+      have hlt : e < (run (l ++ [op])).epoch := by
+        simp only [epochStarts, List.length_cons] at hlen
+        omega
+      have hle : e ≤ (run l).epoch := by
+        rw [run_snoc] at hlt
+        cases hr : resetOf op with
+        | none => rw [((apply_epoch (run l) op hi).1 hr).1] at hlt; omega
+        | some n => rw [((apply_epoch (run l) op hi).2.1 n hr).1] at hlt; omega
+      have hst' : (epochStarts l)[e]? = some st := by
+        have hpre : epochStarts (l ++ [op]) = epochStarts l ++ (match resetOf op with | some n => [n] | none => []) := by
+          unfold epochStarts; rw [resetsOf_snoc]; rfl
+        rw [hpre, List.getElem?_append_left (by simp only [epochStarts, List.length_cons]; omega)] at hst
+        exact hst
+      have hsame : (run (l ++ [op])).obsOf e = (run l).obsOf e := by
+        rw [run_snoc]
+        by_cases hee : e = (run l).epoch
+        · -- `op` was a reset that closed epoch `e`: the log is unchanged
+          cases hr : resetOf op with
+          | none =>
+            exfalso
+            rw [run_snoc, ((apply_epoch (run l) op hi).1 hr).1] at hcur
+            exact hcur hee
+          | some n =>
+            simp only [St.obsOf, ((apply_epoch (run l) op hi).2.1 n hr).2.2.2]
+        · simp only [St.obsOf, hl, List.filter_append, filter_epoch_new hep hee, List.append_nil]
+      rw [hsame]
+      exact ih e st hst'
+
+/-- **every_epoch_no_gap / one claim per nonce in every epoch.** For every epoch of the history, with start
+value `st` and `k` observed claims: observed nonces strictly increase, every one of them lies in
+`(st, st + k]`, and for every nonce in that range exactly one claim took effect in that epoch. -/
+theorem every_epoch_no_gap (ops : List Op) :
+    ∀ e st, (epochStarts ops)[e]? = some st →
+      ((run ops).obsOf e).Pairwise (fun a b => a.nonce < b.nonce) ∧
+      (∀ o ∈ (run ops).obsOf e, st < o.nonce ∧ o.nonce ≤ st + ((run ops).obsOf e).length) ∧
+      (∀ n, st < n → n ≤ st + ((run ops).obsOf e).length →
+        (((run ops).obsOf e).filter (fun o => o.nonce == n)).length = 1) :=
+  fun e st hst => consecutive_facts _ st (every_epoch_consecutive ops e st hst)
+
+/-- **competing_claims_exclusive_every_epoch** ("between governance resets … at most one claim per event
+nonce takes effect"), for any two entries of the whole log: two claims that took effect in the same epoch
+(between the same two resets) at the same nonce are one and the same observation. Across epochs the same
+nonce can be observed again (that is what a reset is for), but never the same claim: see `log_matches_state`. -/
+theorem competing_claims_exclusive_every_epoch (ops : List Op) (e₁ e₂ : Obs)
+    (h₁ : e₁ ∈ (run ops).log) (h₂ : e₂ ∈ (run ops).log) (he : e₁.epoch = e₂.epoch) (hn : e₁.nonce = e₂.nonce) :
+    e₁ = e₂ := by
+  have hle := (reachable_inv ops).epochLe e₁ h₁
+  obtain ⟨t1, _, _, _⟩ := epoch_is_number_of_resets ops
+  have hlen : e₁.epoch < (epochStarts ops).length := by
+    simp only [epochStarts, List.length_cons]; omega
+  have hp := (every_epoch_no_gap ops e₁.epoch _ (List.getElem?_eq_getElem hlen)).1
+  exact increasing_unique hp (List.mem_filter.mpr ⟨h₁, by simp⟩) (List.mem_filter.mpr ⟨h₂, by simp [he]⟩) hn
+
+/-- **one_deployment_per_epoch** ("for each … bridge deployment"). The deployment id changes only through a
+chain activation, which is a reset: all claims that took effect in one epoch took effect under the same
+deployment id, and each of them is a claim of that deployment (or no deployment was on record). Hence the
+per-epoch statements above are per-deployment statements: within one deployment epoch at most one claim per
+nonce, consecutive nonces. -/
+theorem one_deployment_per_epoch (ops : List Op) :
+    (∀ o ∈ (run ops).log, ∀ o' ∈ (run ops).log, o.epoch = o'.epoch → o.deployment = o'.deployment) ∧
+    (∀ o ∈ (run ops).log, o.deployment = 0 ∨ o.compass = o.deployment) ∧
+    (∀ o ∈ (run ops).log, o.epoch = (run ops).epoch → o.deployment = (run ops).compassId) := by
+  have h := log_epoch_tied_to_history ops
+  refine ⟨?_, ?_, (reachable_inv ops).deploy⟩
+  · induction ops using rev_induction with
+    | hnil => intro o ho; simp [run, St.init] at ho
+    | hsnoc l op ih =>
+      have hi := run_inv l
+      have ih' := ih (log_epoch_tied_to_history l)
+      obtain ⟨new, hl, hq⟩ := apply_log (run l) op hi
+      rw [run_snoc, hl]
+      have hnew : ∀ o ∈ new, o.epoch = (run l).epoch ∧ o.deployment = (run l).compassId := by
+        intro o ho
+        obtain ⟨_, _, _, hD, _⟩ := hq o ho
+        exact ⟨hD.1, hD.2.1⟩
+      intro o ho o' ho' hee
+      rcases List.mem_append.mp ho with ho | ho <;> rcases List.mem_append.mp ho' with ho' | ho'
+      · exact ih' o ho o' ho' hee
+      · rw [(hnew o' ho').2]
+        exact hi.deploy o ho (by rw [hee, (hnew o' ho').1])
+      · rw [(hnew o ho).2]
+        exact (hi.deploy o' ho' (by rw [← hee, (hnew o ho).1])).symm
+      · rw [(hnew o ho).2, (hnew o' ho').2]
+  · intro o ho
+    obtain ⟨pre, _, _, _, _, _, _, _, hd, hc⟩ := h.1 o ho
+    rw [hd]; exact hc
+
+/-- **between_resets_consecutive** (the same clause stated on the op history alone, with no ghost epoch: "for
+every interval between governance resets"). Take ANY point of a history (`pre`) and ANY continuation `mid`
+that contains no reset op (no governance override, no chain activation). Then what `mid` adds to the log of
+effects is a block `new` whose nonces are exactly cursor + 1, cursor + 2, … counted from the cursor as it
+stood after `pre`, in this order, and the cursor ends exactly `new.length` further: within the interval no
+nonce is skipped, none takes effect twice, none out of order, and the cursor never moves without an effect. -/
+theorem between_resets_consecutive (pre mid : List Op) (hmid : ∀ op ∈ mid, resetOf op = none) :
+    ∃ new, (run (pre ++ mid)).log = (run pre).log ++ new ∧
+      new.map (·.nonce) = List.range' ((run pre).lastObserved + 1) new.length ∧
+      (run (pre ++ mid)).lastObserved = (run pre).lastObserved + new.length ∧
+      (run (pre ++ mid)).epoch = (run pre).epoch ∧ (run (pre ++ mid)).compassId = (run pre).compassId := by
+  induction mid using rev_induction with
+  | hnil => exact ⟨[], by simp, by simp, by simp, by simp, by simp⟩
+  | hsnoc m op ih =>
+    obtain ⟨new, h1, h2, h3, h4, h5⟩ := ih (fun o ho => hmid o (by simp [ho]))
+    have hr : resetOf op = none := hmid op (by simp)
+    have hi := run_inv (pre ++ m)
+    obtain ⟨more, k1, k2, k3⟩ := apply_consecutive (run (pre ++ m)) op hi hr
+    have hep := (apply_epoch (run (pre ++ m)) op hi).1 hr
+    have hcp := (apply_epoch (run (pre ++ m)) op hi).2.2
+    rw [← List.append_assoc, run_snoc]
+    refine ⟨new ++ more, by rw [k1, h1, List.append_assoc], ?_, by rw [k3, h3, List.length_append]; omega,
+      by rw [hep.1, h4], ?_⟩
+    · rw [List.map_append, List.length_append, ← List.range'_append_1, h2, k2, h3]
+      congr 2
+      omega
+    · rw [hcp, ← h5]
+      cases op <;> first | rfl | (simp [resetOf] at hr)
+
+/-- **chains_independent** ("for each remote chain"). The oracle state of chain `c` after any multi-chain
+history — votes, overrides and activations addressed to any chains, end-blocks that tally every active chain
+with the block's power table — is the single-chain `run` of the ops that concern `c`. Every theorem of this
+file therefore holds for each chain separately (quorum, one claim per nonce and consecutive order per epoch
+and deployment of THAT chain, exactly-once application), whatever happens on the other chains;
+`every_chain_every_epoch_consecutive` below is one instance spelled out. -/
+theorem chains_independent (ops : List MOp) (c : Nat) : runM ops c = run (ops.flatMap (projOp c)) := by
+  induction ops using rev_induction with
+  | hnil => rfl
+  | hsnoc l op ih =>
+    have hm : runM (l ++ [op]) = applyM (runM l) op := by simp [runM, List.foldl_append]
+    rw [hm, List.flatMap_append, run_append, ← ih]
+    cases op with
+    | on c' o =>
+      by_cases h : c = c' <;> simp [applyM, projOp, h]
+    | endBlock active p f cu =>
+      by_cases h : c ∈ active <;> simp [applyM, projOp, h]
+
+/-- **every_chain_every_epoch_consecutive.** `every_epoch_consecutive` for each chain of a multi-chain
+history: for every chain `c` and every epoch of that chain (between two resets addressed to `c`), the nonces
+of the claims that took effect on `c` are consecutive from that epoch's start. -/
+theorem every_chain_every_epoch_consecutive (ops : List MOp) (c : Nat) :
+    ∀ e st, (epochStarts (ops.flatMap (projOp c)))[e]? = some st →
+      ((runM ops c).obsOf e).map (·.nonce) = List.range' (st + 1) ((runM ops c).obsOf e).length := by
+  rw [chains_independent]
+  exact every_epoch_consecutive _
+
+/-- **cursor_consecutive** (the current epoch; the instance of `every_epoch_consecutive` the harness monitors).
+Since the last reset (which installed `epochStart`, the last element of `epochStarts ops`) the
 cursor has moved only together with an observation and only by one: it stands at `epochStart` + the number
 of observations, and the observed nonces are exactly `epochStart+1, epochStart+2, …` in this order — no
 gap, no repetition. Each observation was made when the cursor stood at its nonce − 1. The applied effects
@@ -970,22 +1674,17 @@ theorem cursor_consecutive (ops : List Op) :
     (run ops).lastObserved = (run ops).epochStart + (run ops).observations.length ∧
     (run ops).observations.map (·.nonce) =
       List.range' ((run ops).epochStart + 1) (run ops).observations.length ∧
-    (∀ o ∈ (run ops).observations, o.nonce = o.cursorBefore + 1) ∧
+    (∀ o ∈ (run ops).log, o.nonce = o.cursorBefore + 1) ∧
     (run ops).effects.Sublist (run ops).observations := by
   have hi := reachable_inv ops
-  refine ⟨hi.cursor, hi.consec, ?_, List.filter_sublist⟩
-  intro o ho
-  exact hi.before o (List.mem_filter.mp ho).1
+  exact ⟨hi.cursor, hi.consec, hi.before, List.filter_sublist⟩
 
 /-- observed nonces of one epoch strictly increase -/
 theorem observations_increasing (ops : List Op) :
-    (run ops).observations.Pairwise (fun a b => a.nonce < b.nonce) := by
-  have h := (reachable_inv ops).consec
-  have hp : ((run ops).observations.map (·.nonce)).Pairwise (· < ·) := by
-    rw [h]; exact List.pairwise_lt_range' 1
-  exact List.pairwise_map.mp hp
+    (run ops).observations.Pairwise (fun a b => a.nonce < b.nonce) :=
+  (consecutive_facts _ _ (reachable_inv ops).consec).1
 
-/-- **no_nonce_gap.** The same clause in the form the harness monitors: every observation of the current
+/-- **no_nonce_gap.** The current epoch in the form the harness monitors: every observation of the current
 epoch lies in `(epochStart, cursor]`, and for every nonce in that range exactly one claim was observed. -/
 theorem no_nonce_gap (ops : List Op) :
     (∀ o ∈ (run ops).observations, (run ops).epochStart < o.nonce ∧ o.nonce ≤ (run ops).lastObserved) ∧
@@ -993,77 +1692,59 @@ theorem no_nonce_gap (ops : List Op) :
       ((run ops).observations.filter (fun o => o.nonce == n)).length = 1) := by
   have hi := reachable_inv ops
   have hc := hi.cursor
-  have hm := hi.consec
-  constructor
-  · intro o ho
-    have : o.nonce ∈ (run ops).observations.map (·.nonce) := List.mem_map.mpr ⟨o, ho, rfl⟩
-    rw [hm, List.mem_range'_1] at this
-    omega
-  · intro n h1 h2
-    have hmem : n ∈ (run ops).observations.map (·.nonce) := by
-      rw [hm, List.mem_range'_1]; omega
-    obtain ⟨o, ho, hn⟩ := List.mem_map.mp hmem
-    have hge : 0 < ((run ops).observations.filter (fun o => o.nonce == n)).length :=
-      List.length_pos_of_mem (List.mem_filter.mpr ⟨ho, by simp [hn]⟩)
-    have hle := filter_length_le_one (fun o : Obs => o.nonce == n) (run ops).observations
-      ((observations_increasing ops).imp (by
-        intro x y hxy hp
-        simp only [beq_iff_eq] at hp
-        omega))
-    omega
+  obtain ⟨_, h2, h3⟩ := consecutive_facts _ _ hi.consec
+  exact ⟨fun o ho => by have := h2 o ho; omega, fun n h1 h2' => h3 n h1 (by omega)⟩
 
 /-- **effects_in_order** (the former statement, kept): every observation happened at cursor + 1, observed
 nonces strictly increase, the applied effects are a sub-sequence of the observations, in nonce order. -/
 theorem effects_in_order (ops : List Op) :
-    (∀ e ∈ (run ops).observations, e.nonce = e.cursorBefore + 1) ∧
+    (∀ e ∈ (run ops).log, e.nonce = e.cursorBefore + 1) ∧
     (run ops).observations.Pairwise (fun a b => a.nonce < b.nonce) ∧
     (run ops).effects.Sublist (run ops).observations ∧
     (run ops).effects.Pairwise (fun a b => a.nonce < b.nonce) :=
   ⟨(cursor_consecutive ops).2.2.1, observations_increasing ops, (cursor_consecutive ops).2.2.2,
     (observations_increasing ops).sublist (cursor_consecutive ops).2.2.2⟩
 
-/-- **competing_claims_exclusive.** Two observations of one epoch with the same nonce are the
-same observation: competing claims at one nonce can never both take effect. -/
+/-- **competing_claims_exclusive** (current epoch; see `competing_claims_exclusive_every_epoch` for all).
+Two observations of one epoch with the same nonce are the same observation: competing claims at one nonce
+can never both take effect. -/
 theorem competing_claims_exclusive (ops : List Op) (e₁ e₂ : Obs)
     (h₁ : e₁ ∈ (run ops).observations) (h₂ : e₂ ∈ (run ops).observations) (hn : e₁.nonce = e₂.nonce) :
-    e₁ = e₂ := by
-  have hp := observations_increasing ops
-  rcases List.mem_iff_getElem.mp h₁ with ⟨i, hi, rfl⟩
-  rcases List.mem_iff_getElem.mp h₂ with ⟨j, hj, rfl⟩
-  have hlt := List.pairwise_iff_getElem.mp hp
-  rcases Nat.lt_trichotomy i j with h | h | h
-  · have := hlt i j hi hj h; omega
-  · subst h; rfl
-  · have := hlt j i hj hi h; omega
+    e₁ = e₂ :=
+  increasing_unique (observations_increasing ops) h₁ h₂ hn
 
 /-- **cursor_step.** How a single op of a history moves the cursor: votes and catch-ups not at all, an
-override to its argument (starting a new epoch with no observations), a tally by exactly the number of
-observations it appends to the current epoch, each of them with quorum under that tally's table. -/
+override to its argument and an activation to 0 (starting a new epoch with no observations; the activation
+also installs the deployment id), a tally by exactly the number of observations it appends to the current
+epoch, each of them with quorum under that tally's table and of the current deployment. -/
 theorem cursor_step (ops : List Op) (op : Op) :
     match op with
     | .vote .. => (apply (run ops) op).lastObserved = (run ops).lastObserved
     | .catchUp => (apply (run ops) op).lastObserved = (run ops).lastObserved
     | .override n => (apply (run ops) op).lastObserved = n ∧ (apply (run ops) op).epochStart = n ∧
-        (apply (run ops) op).observations = []
+        (apply (run ops) op).observations = [] ∧ (apply (run ops) op).compassId = (run ops).compassId
+    | .activate c => (apply (run ops) op).lastObserved = 0 ∧ (apply (run ops) op).epochStart = 0 ∧
+        (apply (run ops) op).observations = [] ∧ (apply (run ops) op).compassId = c
     | .tally p _ => ∃ new, (apply (run ops) op).observations = (run ops).observations ++ new ∧
         (apply (run ops) op).log = (run ops).log ++ new ∧
         (apply (run ops) op).lastObserved = (run ops).lastObserved + new.length ∧
-        ∀ o ∈ new, QuorumObs (run ops) (powerOf p) (totalOf p) o := by
+        ∀ o ∈ new, DeployObs (run ops) o ∧ QuorumObs (run ops) (powerOf p) (totalOf p) o := by
   have hi := reachable_inv ops
   cases op with
-  | vote v n h eth ap amt =>
-    rcases vote_cases (run ops) v n h eth ap amt with ⟨_, he⟩ | ⟨_, _, _, he⟩ <;> simp [apply, he]
+  | vote v n h eth ap amt cp =>
+    rcases vote_cases (run ops) v n h eth ap amt cp with ⟨_, he⟩ | ⟨_, _, _, he⟩ <;> simp [apply, he]
   | catchUp => simp [apply, catchUp]
-  | override n => exact ⟨rfl, rfl, observations_override _ n hi⟩
+  | override n => exact ⟨rfl, rfl, observations_override _ n hi, rfl⟩
+  | activate c => exact ⟨rfl, rfl, observations_activate _ c hi, rfl⟩
   | tally p f =>
-    obtain ⟨new, hl, hep, hes, _, hq⟩ := tally_log (run ops) (powerOf p) (totalOf p) (faultOf f) hi
+    obtain ⟨new, hl, hep, hes, _, _, hq⟩ := tally_log (run ops) (powerOf p) (totalOf p) (faultOf f) hi
     have hi' := tally_inv (run ops) (powerOf p) (totalOf p) (faultOf f) hi
     have hobs : (tally (run ops) (powerOf p) (totalOf p) (faultOf f)).observations =
         (run ops).observations ++ new := by
       simp only [St.observations, hl, hep, List.filter_append]
       congr 1
-      exact List.filter_eq_self.mpr (fun o ho => by simp [(hq o ho).1])
-    refine ⟨new, hobs, hl, ?_, fun o ho => (hq o ho).2⟩
+      exact List.filter_eq_self.mpr (fun o ho => by simp [(hq o ho).1.1])
+    refine ⟨new, hobs, hl, ?_, hq⟩
     have h1 := hi'.cursor
     have h2 := hi.cursor
     rw [hobs, hes] at h1
@@ -1086,16 +1767,18 @@ theorem log_matches_state (ops : List Op) :
       (((run ops).log.filter (fun o => o.nonce == a.nonce && o.hash == a.hash)).map Obs.mint =
         if a.observed then [if a.applicable then a.amount else 0] else []) ∧
       (∀ o ∈ (run ops).log, o.nonce = a.nonce → o.hash = a.hash →
-        a.observed = true ∧ o.applicable = a.applicable ∧ o.amount = a.amount ∧ o.eth = a.eth) := by
+        a.observed = true ∧ o.applicable = a.applicable ∧ o.amount = a.amount ∧ o.eth = a.eth ∧
+        o.compass = a.compass) := by
   intro a ha
   have hi := reachable_inv ops
   have hsame : ∀ o ∈ (run ops).log, o.nonce = a.nonce → o.hash = a.hash →
-      a.observed = true ∧ o.applicable = a.applicable ∧ o.amount = a.amount ∧ o.eth = a.eth := by
+      a.observed = true ∧ o.applicable = a.applicable ∧ o.amount = a.amount ∧ o.eth = a.eth ∧
+      o.compass = a.compass := by
     intro o ho h1 h2
-    obtain ⟨a', ha', k1, k2, k3, k4, k5, k6⟩ := hi.obsAtt o ho
+    obtain ⟨a', ha', k1, k2, k3, k4, k5, k6, k7⟩ := hi.obsAtt o ho
     have : a' = a := keys_unique hi.keys ha' ha ⟨by omega, by omega⟩
     subst this
-    exact ⟨k3, k4.symm, k5.symm, k6.symm⟩
+    exact ⟨k3, k4.symm, k5.symm, k6.symm, k7.symm⟩
   refine ⟨?_, hsame⟩
   have hle := filter_length_le_one (fun o : Obs => o.nonce == a.nonce && o.hash == a.hash) (run ops).log
     (hi.uniq.imp (by
@@ -1129,28 +1812,28 @@ attestation whose observed flag is set and carries that attestation's claim. (Th
 attestations; pruning 1000 nonces behind the cursor is outside the modelled histories.) -/
 theorem log_entries_are_observed_attestations (ops : List Op) :
     ∀ o ∈ (run ops).log, ∃ a ∈ (run ops).atts, a.nonce = o.nonce ∧ a.hash = o.hash ∧ a.observed = true ∧
-      a.applicable = o.applicable ∧ a.amount = o.amount ∧ a.eth = o.eth :=
+      a.applicable = o.applicable ∧ a.amount = o.amount ∧ a.eth = o.eth ∧ a.compass = o.compass :=
   (reachable_inv ops).obsAtt
 
 /-- **observed_requires_quorum.** The quorum clause stated on the executable state alone (no ghost): if after
 a history an attestation is flagged observed, then the history contains a tally op before which that
 attestation was stored unobserved with pairwise distinct voters whose power under that tally's table
 exceeded 66 % of the table's total, each of whom had cast an accepted vote for exactly this claim (nonce,
-hash, remote height) earlier in the history. -/
+hash, remote height) earlier in the history; and the attestation passed the deployment filter at that point. -/
 theorem observed_requires_quorum (ops : List Op) :
     ∀ a ∈ (run ops).atts, a.observed = true →
       ∃ pre p f post, ops = pre ++ Op.tally p f :: post ∧
         ∃ a0 ∈ (run pre).atts, a0.nonce = a.nonce ∧ a0.hash = a.hash ∧ a0.eth = a.eth ∧ a0.observed = false ∧
-          a0.votes.Nodup ∧
+          a0.votes.Nodup ∧ ((run pre).compassId = 0 ∨ a.compass = (run pre).compassId) ∧
           100 * (a0.votes.map (powerOf p)).sum > 66 * totalOf p ∧
           (a0.votes.map (powerOf p)).sum ≤ totalOf p ∧
           ∀ v ∈ a0.votes, VotedIn pre v a.nonce a.hash a.eth := by
   intro a ha hobs
   have hi := reachable_inv ops
   obtain ⟨o, ho, h1, h2⟩ := hi.attObs a ha hobs
-  obtain ⟨_, _, _, h6⟩ := (log_matches_state ops a ha).2 o ho h1 h2
-  obtain ⟨pre, p, f, post, he, _, a0, ha0, k0, k1, k2, k3, _, _, _, k7, k8⟩ := log_provenance ops o ho
-  refine ⟨pre, p, f, post, he, a0, ha0, by omega, by omega, by omega, k0, k7, k8,
+  obtain ⟨_, _, _, h6, h7⟩ := (log_matches_state ops a ha).2 o ho h1 h2
+  obtain ⟨pre, p, f, post, he, _, hD, a0, ha0, k0, k1, k2, k3, _, _, _, k7, k8⟩ := log_provenance ops o ho
+  refine ⟨pre, p, f, post, he, a0, ha0, by omega, by omega, by omega, k0, k7, h7 ▸ hD.2.2, k8,
     voters_power_le_total _ k7 p, ?_⟩
   intro v hv
   have := votes_were_cast pre a0 ha0 v hv
@@ -1301,10 +1984,10 @@ theorem threshold_as_in_source :
 
 /-- **vote_requires_next_nonce.** A validator's vote is accepted only for exactly the nonce
 after its last one, and only with the remote height the stored claim has; a rejected vote changes nothing. -/
-theorem vote_requires_next_nonce (s : St) (v n h eth : Nat) (ap : Bool) (amt : Nat) :
-    ((vote s v n h eth ap amt).2 = .ok → n = lastNonceOf s v + 1 ∧ (attFor s n h eth ap amt).eth = eth) ∧
-    ((vote s v n h eth ap amt).2 = .rejected → (vote s v n h eth ap amt).1 = s) := by
-  rcases vote_cases s v n h eth ap amt with ⟨hr, he⟩ | ⟨hok, hn, heth, _⟩
+theorem vote_requires_next_nonce (s : St) (v n h eth : Nat) (ap : Bool) (amt cp : Nat) :
+    ((vote s v n h eth ap amt cp).2 = .ok → n = lastNonceOf s v + 1 ∧ (attFor s n h eth ap amt cp).eth = eth) ∧
+    ((vote s v n h eth ap amt cp).2 = .rejected → (vote s v n h eth ap amt cp).1 = s) := by
+  rcases vote_cases s v n h eth ap amt cp with ⟨hr, he⟩ | ⟨hok, hn, heth, _⟩
   · exact ⟨fun hok => (by rw [hr] at hok; cases hok), fun _ => he⟩
   · exact ⟨fun _ => ⟨hn, heth⟩, fun hr => (by rw [hok] at hr; cases hr)⟩
 
@@ -1312,39 +1995,34 @@ theorem vote_requires_next_nonce (s : St) (v n h eth : Nat) (ap : Bool) (amt : N
 
 /-- validator 1 votes, the nonce is overridden, it votes again — counted once; validator 2 joins; 70 of 100 -/
 def demo : List Op :=
-  [ .vote 1 1 77 100 true 5, .override 0, .vote 1 1 77 100 true 5, .vote 2 1 77 100 true 5,
+  [ .vote 1 1 77 100 true 5 0, .override 0, .vote 1 1 77 100 true 5 0, .vote 2 1 77 100 true 5 0,
     .tally [(1, 40), (2, 30), (3, 30)] [] ]
 
 example : ((run demo).atts.map (·.votes)) = [[1, 2]] ∧ (run demo).lastObserved = 1 ∧
     (run demo).minted = 5 ∧ (run demo).effects.length = 1 ∧ (run demo).log.map (·.voters) = [[1, 2]] ∧
-    (run demo).epochStart = 0 ∧ (run demo).observations.map (·.nonce) = [1] := by decide
-/-- the hash assumption is satisfiable by a history with an effect -/
-example : HashIdentifiesClaim demo := by
-  intro v n h e ap am v' e' ap' am' h1 h2
-  simp only [demo, List.mem_cons, Op.vote.injEq, List.mem_nil_iff, reduceCtorEq, or_false, false_or] at h1 h2
-  rcases h1 with h1 | h1 | h1 <;> rcases h2 with h2 | h2 | h2 <;>
-    exact ⟨h1.2.2.2.2.1.trans h2.2.2.2.2.1.symm, h1.2.2.2.2.2.trans h2.2.2.2.2.2.symm⟩
+    (run demo).epochStart = 0 ∧ (run demo).epoch = 1 ∧ epochStarts demo = [0, 0] ∧
+    (run demo).observations.map (·.nonce) = [1] := by decide
 /-- a minority (40 of 100), however often it votes, moves nothing -/
-example : (run [.vote 1 1 77 100 true 5, .override 0, .vote 1 1 77 100 true 5,
+example : (run [.vote 1 1 77 100 true 5 0, .override 0, .vote 1 1 77 100 true 5 0,
     .tally [(1, 40), (2, 30), (3, 30)] []]).lastObserved = 0 := by decide
 /-- exactly 66 % is not enough, 67 % is -/
-example : (run [.vote 1 1 77 100 true 5, .tally [(1, 66), (2, 34)] []]).lastObserved = 0 ∧
-    (run [.vote 1 1 77 100 true 5, .tally [(1, 67), (2, 33)] []]).lastObserved = 1 := by decide
+example : (run [.vote 1 1 77 100 true 5 0, .tally [(1, 66), (2, 34)] []]).lastObserved = 0 ∧
+    (run [.vote 1 1 77 100 true 5 0, .tally [(1, 67), (2, 33)] []]).lastObserved = 1 := by decide
 /-- power is read at the tally: the same votes fail under one table and succeed under the next -/
-example : (run [.vote 1 1 77 100 true 5, .tally [(1, 10), (2, 90)] [], .tally [(1, 90), (2, 10)] []]).log.map
+example : (run [.vote 1 1 77 100 true 5 0, .tally [(1, 10), (2, 90)] [], .tally [(1, 90), (2, 10)] []]).log.map
     (·.voters) = [[1]] := by decide
 /-- two claims reach quorum in one block; the event of the first cannot be emitted: it is applied, the second waits -/
-example : (run [.vote 1 1 77 100 true 5, .vote 2 1 77 100 true 5, .vote 1 2 88 101 true 6, .vote 2 2 88 101 true 6,
+example : (run [.vote 1 1 77 100 true 5 0, .vote 2 1 77 100 true 5 0, .vote 1 2 88 101 true 6 0, .vote 2 2 88 101 true 6 0,
     .tally [(1, 40), (2, 30), (3, 30)] [(1, 77)]]).minted = 5 ∧
-  (run [.vote 1 1 77 100 true 5, .vote 2 1 77 100 true 5, .vote 1 2 88 101 true 6, .vote 2 2 88 101 true 6,
+  (run [.vote 1 1 77 100 true 5 0, .vote 2 1 77 100 true 5 0, .vote 1 2 88 101 true 6 0, .vote 2 2 88 101 true 6 0,
     .tally [(1, 40), (2, 30), (3, 30)] []]).minted = 11 := by decide
 /-- competing claims at one nonce: only one is observed; a claim the handler cannot apply is observed
 (the cursor moves) without an effect -/
-example : (run [.vote 1 1 77 100 false 5, .vote 2 1 77 100 false 5, .vote 3 1 78 100 true 9,
+example : (run [.vote 1 1 77 100 false 5 0, .vote 2 1 77 100 false 5 0, .vote 3 1 78 100 true 9 0,
     .tally [(1, 40), (2, 30), (3, 30)] []]).observations.map (·.hash) = [77] ∧
-  (run [.vote 1 1 77 100 false 5, .vote 2 1 77 100 false 5, .vote 3 1 78 100 true 9,
+  (run [.vote 1 1 77 100 false 5 0, .vote 2 1 77 100 false 5 0, .vote 3 1 78 100 true 9 0,
     .tally [(1, 40), (2, 30), (3, 30)] []]).effects = [] ∧
-  (run [.vote 1 1 77 100 false 5, .vote 2 1 77 100 false 5, .vote 3 1 78 100 true 9,
+  (run [.vote 1 1 77 100 false 5 0, .vote 2 1 77 100 false 5 0, .vote 3 1 78 100 true 9 0,
     .tally [(1, 40), (2, 30), (3, 30)] []]).minted = 0 := by decide
 
 /-- A claim with quorum whose remote height (50) is below the last observed one (110): refused, and the
@@ -1352,26 +2030,172 @@ oracle stays where it was — cursor 1, nothing observed or minted for nonce 2, 
 Before 5e19ceda (`setLastObservedSkywayNonce` ran before `SetLastObservedEthereumBlockHeight`) the second
 tally of this very history left the cursor at 2 with nonce 2 unobserved, and the third tally observed
 nonce 3: effects at nonces 1, 3 — the full clause "strictly consecutive" was false (reproduced on the
-real keeper; recorded as `fixed` in known_findings.json; monitored by `no_nonce_gap` in the harness). -/
+real keeper; recorded as `fixed` in known_findings.json; monitored by `no_nonce_gap` in the harness). No
+Lean statement is made about that older tree: the model mirrors the current one. -/
 def refusedHeight : List Op :=
-  [ .vote 1 1 77 110 true 5, .vote 2 1 77 110 true 5, .tally [(1, 40), (2, 30), (3, 30)] [],
-    .vote 1 2 88 50 true 6, .vote 2 2 88 50 true 6, .tally [(1, 40), (2, 30), (3, 30)] [],
-    .vote 1 3 99 130 true 7, .vote 2 3 99 130 true 7, .tally [(1, 40), (2, 30), (3, 30)] [] ]
+  [ .vote 1 1 77 110 true 5 0, .vote 2 1 77 110 true 5 0, .tally [(1, 40), (2, 30), (3, 30)] [],
+    .vote 1 2 88 50 true 6 0, .vote 2 2 88 50 true 6 0, .tally [(1, 40), (2, 30), (3, 30)] [],
+    .vote 1 3 99 130 true 7 0, .vote 2 3 99 130 true 7 0, .tally [(1, 40), (2, 30), (3, 30)] [] ]
 
 example : (run refusedHeight).lastObserved = 1 ∧ (run refusedHeight).lastEth = 110 ∧
     (run refusedHeight).observations.map (·.nonce) = [1] ∧ (run refusedHeight).minted = 5 ∧
     (run refusedHeight).atts.map (fun a => (a.nonce, a.observed)) = [(1, true), (2, false), (3, false)] := by decide
 
 /-- two epochs: observations 1, 2, a reset to 5, observations 6, 7 (nonce 6 by a non-applicable claim);
-the log keeps both epochs, the cursor is reset value + observations of the epoch -/
+the log keeps both epochs; `every_epoch_consecutive` speaks about both: epoch 0 started at 0 and has the
+nonces 1, 2; epoch 1 started at 5 (the override of the history) and has 6, 7 -/
 def twoEpochs : List Op :=
-  [ .vote 1 1 11 100 true 5, .vote 2 1 11 100 true 5, .vote 1 2 12 101 true 6, .vote 2 2 12 101 true 6,
+  [ .vote 1 1 11 100 true 5 0, .vote 2 1 11 100 true 5 0, .vote 1 2 12 101 true 6 0, .vote 2 2 12 101 true 6 0,
     .tally [(1, 40), (2, 30), (3, 30)] [], .override 5,
-    .vote 1 6 16 105 false 7, .vote 2 6 16 105 false 7, .vote 1 7 17 106 true 8, .vote 2 7 17 106 true 8,
+    .vote 1 6 16 105 false 7 0, .vote 2 6 16 105 false 7 0, .vote 1 7 17 106 true 8 0, .vote 2 7 17 106 true 8 0,
     .tally [(1, 40), (2, 30), (3, 30)] [] ]
 
 example : (run twoEpochs).log.map (·.nonce) = [1, 2, 6, 7] ∧ (run twoEpochs).observations.map (·.nonce) = [6, 7] ∧
     (run twoEpochs).effects.map (·.nonce) = [7] ∧ (run twoEpochs).epochStart = 5 ∧
-    (run twoEpochs).lastObserved = 7 ∧ (run twoEpochs).minted = 19 := by decide
+    (run twoEpochs).lastObserved = 7 ∧ (run twoEpochs).minted = 19 ∧
+    epochStarts twoEpochs = [0, 5] ∧ (run twoEpochs).epoch = 1 ∧
+    ((run twoEpochs).obsOf 0).map (·.nonce) = [1, 2] ∧ ((run twoEpochs).obsOf 1).map (·.nonce) = [6, 7] := by decide
+
+/-- the same nonce takes effect in two epochs (a reset BACK to 0), with two different claims: allowed across a
+reset, excluded within an epoch (`competing_claims_exclusive_every_epoch`); log `(epoch, nonce, hash)` -/
+example : (run [.vote 1 1 11 100 true 5 0, .vote 2 1 11 100 true 5 0, .tally [(1, 40), (2, 30), (3, 30)] [],
+    .override 0, .vote 1 1 10 100 true 4 0, .vote 2 1 10 100 true 4 0,
+    .tally [(1, 40), (2, 30), (3, 30)] []]).log.map (fun o => (o.epoch, o.nonce, o.hash)) = [(0, 1, 11), (1, 1, 10)] := by
+  decide
+
+/-- bridge deployments: the chain is activated with compass id 1; at nonce 1 a claim of deployment 1 (hash 21)
+and a claim of deployment 2 (hash 22, more power behind it!) compete: only the claim of the current deployment
+is tallied. After the re-deployment (activation with id 2: cursor back to 0, a new epoch) the validators vote
+again; now the deployment-2 claim takes effect at nonce 1 and the old one is out of the mapping. Log entries
+as `(epoch, deployment, compass, nonce, hash)`. -/
+def twoDeployments : List Op :=
+  [ .activate 1,
+    .vote 1 1 21 100 true 5 1, .vote 2 1 22 100 true 6 2, .vote 3 1 22 100 true 6 2,
+    .tally [(1, 10), (2, 45), (3, 45)] [],          -- 90 % behind the claim of deployment 2: not tallied
+    .vote 2 2 23 101 true 7 1,                       -- validators 2, 3 move on
+    .tally [(1, 70), (2, 15), (3, 15)] [],          -- 70 % behind the claim of deployment 1: observed
+    .activate 2,
+    .vote 2 1 22 100 true 6 2, .vote 3 1 22 100 true 6 2,
+    .tally [(1, 10), (2, 45), (3, 45)] [] ]
+
+example : (run twoDeployments).log.map (fun o => (o.epoch, o.deployment, o.compass, o.nonce, o.hash)) =
+      [(1, 1, 1, 1, 21), (2, 2, 2, 1, 22)] ∧
+    (run twoDeployments).compassId = 2 ∧ deploymentOf twoDeployments = 2 ∧ epochStarts twoDeployments = [0, 0, 0] ∧
+    (run twoDeployments).minted = 11 ∧
+    (run (twoDeployments.take 5)).lastObserved = 0 := by decide
+
+/-- the periodic validator-nonce catch-up in a history: validator 3 never voted for nonces 1 and 2 (its
+record would stay at 0 and its vote for nonce 3 be refused as non-contiguous); after the catch-up at the end
+of the block its record is the cursor and the vote for nonce 3 is accepted — and counted once -/
+def withCatchUp : List Op :=
+  [ .vote 3 1 30 100 true 1 0,                                             -- creates validator 3's record (a minority claim)
+    .vote 1 1 31 100 true 5 0, .vote 2 1 31 100 true 5 0, .vote 1 2 32 101 true 6 0, .vote 2 2 32 101 true 6 0,
+    .tally [(1, 40), (2, 30), (3, 30)] [] ]
+
+example : (vote (run withCatchUp) 3 3 33 102 true 7 0).2 = .rejected ∧
+    (vote (run (withCatchUp ++ [.catchUp])) 3 3 33 102 true 7 0).2 = .ok ∧
+    (run (withCatchUp ++ [.catchUp, .vote 3 3 33 102 true 7 0, .vote 1 3 33 102 true 7 0,
+      .tally [(1, 40), (2, 30), (3, 30)] []])).log.map (fun o => (o.nonce, o.voters)) =
+      [(1, [1, 2]), (2, [1, 2]), (3, [3, 1])] := by decide
+
+/-- two remote chains in one history: chain 7 and chain 9 are tallied by the same end-blocks with the same
+power table; each has its own cursor, votes and effects -/
+def twoChains : List MOp :=
+  [ .on 7 (.vote 1 1 71 100 true 5 0), .on 9 (.vote 1 1 91 200 true 8 0), .on 7 (.vote 2 1 71 100 true 5 0),
+    .endBlock [7, 9] [(1, 40), (2, 30), (3, 30)] (fun _ => []) false,
+    .on 9 (.vote 2 1 91 200 true 8 0),
+    .endBlock [7, 9] [(1, 40), (2, 30), (3, 30)] (fun _ => []) true ]
+
+example : (runM twoChains 7).lastObserved = 1 ∧ (runM twoChains 7).minted = 5 ∧ (runM twoChains 9).minted = 8 ∧
+    (runM twoChains 8).lastObserved = 0 ∧
+    (runM twoChains 9).log.map (fun o => (o.nonce, o.hash, o.voters)) = [(1, 91, [1, 2])] := by decide
+
+/-! #### a history of real claims (hypotheses of `honest_votes_counted_only_for_identical_claim`) -/
+
+/-- a toy hash for the example: the pre-image bytes read as a base-256 number -/
+def toyL : Lowering :=
+  { H := fun bytes => bytes.foldl (fun a b => a * 256 + b) 0,
+    content := fun c => (c.ty != "MsgLightNodeSaleClaim", c.nonce + 100),
+    cc := fun b => b.foldl (fun a x => a * 256 + x) 0 }
+
+open Paloma.ClaimHash in
+/-- a deposit seen by the honest validators (receiver bytes `[1]`), and the same deposit with another
+receiver (`[2]`) submitted FIRST by validator 3; plus a batch claim at nonce 2 -/
+def deposit (receiver : Nat) : OClaim :=
+  { ty := "MsgSendToPalomaClaim", nonce := 1, eth := 100,
+    mid := [.str [170], .amt 25, .str [187], .str [receiver]], compass := [1] }
+
+open Paloma.ClaimHash in
+def batchDone : OClaim :=
+  { ty := "MsgBatchSendToRemoteClaim", nonce := 2, eth := 101, mid := [.num 4, .str [170]], compass := [1] }
+
+def realHist : List COp :=
+  [ .activate [1], .vote 3 (deposit 2), .vote 1 (deposit 1), .vote 2 (deposit 1),
+    .tally [(1, 35), (2, 35), (3, 30)] [],
+    .vote 1 batchDone, .vote 2 batchDone, .vote 3 batchDone, .tally [(1, 35), (2, 35), (3, 30)] [] ]
+
+/-- the claims of `realHist` are well-typed against the regenerated table and the toy hash does not collide
+on them: the hypotheses of the composite theorem hold; and the history has effects: the honest deposit
+(validator 3's variant with the other receiver, although submitted first, got no honest vote: it is a
+different attestation) and the executed batch, voted by all three -/
+example : (∀ c ∈ claimsOf realHist, c.toClaim.wellTyped = true) := by decide
+open Paloma.ClaimHash in
+theorem example_toy_hashes :
+    toyL.hash (deposit 1) = 280792967694312301275705069389661636116995846193 ∧
+    toyL.hash (deposit 2) = 280792967694312301275705069389661636117012623409 ∧
+    toyL.hash batchDone = 3976013386120864247805421498417 ∧
+    preimage (deposit 1).fields = [49, 47, 49, 48, 48, 47, 97, 97, 47, 50, 53, 47, 98, 98, 47, 48, 49, 47, 48, 49] ∧
+    preimage (deposit 2).fields = [49, 47, 49, 48, 48, 47, 97, 97, 47, 50, 53, 47, 98, 98, 47, 48, 50, 47, 48, 49] ∧
+    preimage batchDone.fields = [50, 47, 49, 48, 49, 47, 52, 47, 97, 97, 47, 48, 49] := by
+  have h1 : preimage (deposit 1).fields =
+      [49, 47, 49, 48, 48, 47, 97, 97, 47, 50, 53, 47, 98, 98, 47, 48, 49, 47, 48, 49] := by
+    simp [deposit, OClaim.fields, preimage, join, enc, encStr, hexd, decDigits, slash]
+  have h2 : preimage (deposit 2).fields =
+      [49, 47, 49, 48, 48, 47, 97, 97, 47, 50, 53, 47, 98, 98, 47, 48, 50, 47, 48, 49] := by
+    simp [deposit, OClaim.fields, preimage, join, enc, encStr, hexd, decDigits, slash]
+  have h3 : preimage batchDone.fields = [50, 47, 49, 48, 49, 47, 52, 47, 97, 97, 47, 48, 49] := by
+    simp [batchDone, OClaim.fields, preimage, join, enc, encStr, hexd, decDigits, slash]
+  refine ⟨?_, ?_, ?_, h1, h2, h3⟩
+  · simp only [Lowering.hash, h1]; decide
+  · simp only [Lowering.hash, h2]; decide
+  · simp only [Lowering.hash, h3]; decide
+
+example : ∀ c ∈ claimsOf realHist, ∀ c' ∈ claimsOf realHist, NoCollisionAt toyL c c' := by
+  obtain ⟨h1, h2, h3, _⟩ := example_toy_hashes
+  have hl : claimsOf realHist = [deposit 2, deposit 1, deposit 1, batchDone, batchDone, batchDone] := by decide
+  rw [hl]
+  intro c hc c' hc'
+  simp only [List.mem_cons, List.mem_nil_iff, or_false] at hc hc'
+  unfold NoCollisionAt
+  rcases hc with rfl | rfl | rfl | rfl | rfl | rfl <;> rcases hc' with rfl | rfl | rfl | rfl | rfl | rfl <;>
+    first
+    | (intro _; rfl)
+    | (rw [h1, h2]; intro h; exact absurd h (by decide))
+    | (rw [h2, h1]; intro h; exact absurd h (by decide))
+    | (rw [h1, h3]; intro h; exact absurd h (by decide))
+    | (rw [h3, h1]; intro h; exact absurd h (by decide))
+    | (rw [h2, h3]; intro h; exact absurd h (by decide))
+    | (rw [h3, h2]; intro h; exact absurd h (by decide))
+
+/-- the lowered history, with the hashes worked out -/
+theorem example_realHist_lowered : realHist.map toyL.op =
+    [ .activate 1,
+      .vote 3 1 280792967694312301275705069389661636117012623409 100 true 101 1,
+      .vote 1 1 280792967694312301275705069389661636116995846193 100 true 101 1,
+      .vote 2 1 280792967694312301275705069389661636116995846193 100 true 101 1,
+      .tally [(1, 35), (2, 35), (3, 30)] [],
+      .vote 1 2 3976013386120864247805421498417 101 true 102 1,
+      .vote 2 2 3976013386120864247805421498417 101 true 102 1,
+      .vote 3 2 3976013386120864247805421498417 101 true 102 1,
+      .tally [(1, 35), (2, 35), (3, 30)] [] ] := by
+  obtain ⟨h1, h2, h3, _⟩ := example_toy_hashes
+  simp only [realHist, List.map_cons, List.map_nil, Lowering.op, Lowering.voteOp, h1, h2, h3]
+  rfl
+
+example : (run (realHist.map toyL.op)).log.map (fun o => (o.nonce, o.voters, o.amount)) =
+    [(1, [1, 2], 101), (2, [1, 2, 3], 102)] ∧
+    (run (realHist.map toyL.op)).atts.map (fun a => (a.nonce, a.votes)) = [(1, [3]), (1, [1, 2]), (2, [1, 2, 3])] := by
+  rw [example_realHist_lowered]
+  decide
 
 end Paloma.Oracle
